@@ -23,12 +23,12 @@ From CiwV.Inv Require Import Frame Conserve ConserveRun Capacity SysCap Capacity
 Import ListNotations.
 Open Scope Z_scope.
 
-(* ---------- the view of the state this property talks about ---------- *)
+(* ---------- the nview of the state this property talks about ---------- *)
 Definition bq_t := list (Z * Z).
-Definition view := (Z * bq_t * Z)%type.                      (* population, blocked queue, blocked-queue counter *)
-Definition bview (nd : node) : Z * view := (n_id nd, (n_pop nd, n_bq nd, n_lenbq nd)).
-Definition BV (s : sim) : list (Z * view) := map bview (nodes s).
-Definition bvZ (s : sim) (j : Z) : option view := option_map (fun nd => snd (bview nd)) (nthZ (nodes s) (j - 1)).
+Definition nview := (Z * bq_t * Z)%type.                      (* population, blocked queue, blocked-queue counter *)
+Definition bview (nd : node) : Z * nview := (n_id nd, (n_pop nd, n_bq nd, n_lenbq nd)).
+Definition BV (s : sim) : list (Z * nview) := map bview (nodes s).
+Definition bvZ (s : sim) (j : Z) : option nview := option_map (fun nd => snd (bview nd)) (nthZ (nodes s) (j - 1)).
 
 Lemma bvZ_0 s : bvZ s 0 = None.
 Proof. reflexivity. Qed.
@@ -53,10 +53,10 @@ Proof.
   specialize (HI _ _ E0). congruence.
 Qed.
 
-(* ---------- actions that keep the view (under Idx: a node is written back into its own slot) ---------- *)
+(* ---------- actions that keep the nview (under Idx: a node is written back into its own slot) ---------- *)
 Definition keepI {A} (m : M A) : Prop := forall s a s', Idx s -> m s = Ok (a, s') -> BV s' = BV s.
-(* the same, knowing the view b of node j (so that node j may be written back with that view) *)
-Definition keepN {A} (j : Z) (b : Z * view) (m : M A) : Prop :=
+(* the same, knowing the nview b of node j (so that node j may be written back with that nview) *)
+Definition keepN {A} (j : Z) (b : Z * nview) (m : M A) : Prop :=
   forall s a s', Idx s -> (exists nd0, nthZ (nodes s) (j - 1) = Some nd0 /\ bview nd0 = b) -> m s = Ok (a, s') -> BV s' = BV s.
 
 Lemma keepI_ro {A} (m : M A) : ro m -> keepI m.
@@ -119,7 +119,7 @@ Proof.
   apply get_node_spec in E as [-> Hn]. eapply HF; [exact HI|exists nd; split; [exact Hn|reflexivity]|exact H].
 Qed.
 
-Ltac k_step :=
+Ltac bk_k_step :=
   first
     [ match goal with
       | |- keepI (bind (get_node _) _) => apply keepI_node_then; intros
@@ -140,47 +140,47 @@ Ltac k_step :=
 
 Section Keep.
   Variable cf : config.
-  Lemma k_ncfg_of j : keepI (ncfg_of cf j). Proof. apply keepI_lift. Qed.
-  Lemma k_is_inf j : keepI (is_inf cf j). Proof. apply keepI_ro, ro_is_inf. Qed.
-  Lemma k_choice_uniform {A} (l : list A) : keepI (choice_uniform l). Proof. unfold choice_uniform. repeat k_step. Qed.
-  Lemma k_choice_weighted den P : keepI (choice_weighted den P). Proof. unfold choice_weighted. repeat k_step. Qed.
-  Lemma k_choose_next_customer nd : keepI (choose_next_customer cf nd).
-  Proof. unfold choose_next_customer. repeat first [apply k_ncfg_of | apply k_choice_uniform | k_step]. Qed.
-  Lemma k_start_service j i srv : keepI (start_service j i srv).
-  Proof. unfold start_service. repeat k_step. Qed.
-  Lemma k_bsip_accept j i : keepI (begin_service_if_possible_accept cf j i).
-  Proof. unfold begin_service_if_possible_accept. repeat first [apply k_is_inf | apply k_choose_next_customer | apply k_start_service | k_step]. Qed.
-  Lemma k_exit_accept x c : keepI (exit_accept x c).
+  Lemma bk_k_ncfg_of j : keepI (ncfg_of cf j). Proof. apply keepI_lift. Qed.
+  Lemma bk_k_is_inf j : keepI (is_inf cf j). Proof. apply keepI_ro, ro_is_inf. Qed.
+  Lemma bk_k_choice_uniform {A} (l : list A) : keepI (choice_uniform l). Proof. unfold choice_uniform. repeat bk_k_step. Qed.
+  Lemma bk_k_choice_weighted den P : keepI (choice_weighted den P). Proof. unfold choice_weighted. repeat bk_k_step. Qed.
+  Lemma bk_k_choose_next_customer nd : keepI (choose_next_customer cf nd).
+  Proof. unfold choose_next_customer. repeat first [apply bk_k_ncfg_of | apply bk_k_choice_uniform | bk_k_step]. Qed.
+  Lemma bk_k_start_service j i srv : keepI (start_service j i srv).
+  Proof. unfold start_service. repeat bk_k_step. Qed.
+  Lemma bk_k_bsip_accept j i : keepI (begin_service_if_possible_accept cf j i).
+  Proof. unfold begin_service_if_possible_accept. repeat first [apply bk_k_is_inf | apply bk_k_choose_next_customer | apply bk_k_start_service | bk_k_step]. Qed.
+  Lemma bk_k_exit_accept x c : keepI (exit_accept x c).
   Proof. unfold exit_accept. apply keepI_bind; [apply keepI_del_ind|]. intros _. apply keepI_modify. reflexivity. Qed.
-  Lemma k_write_individual_record j x : keepI (write_individual_record cf j x).
-  Proof. unfold write_individual_record. repeat first [apply k_is_inf | k_step]. Qed.
-  Lemma k_write_br_record j x ty : keepI (write_br_record j x ty). Proof. unfold write_br_record. repeat k_step. Qed.
-  Lemma k_bsip_release j freed : keepI (begin_service_if_possible_release cf j freed).
-  Proof. unfold begin_service_if_possible_release. repeat first [apply k_choose_next_customer | apply k_start_service | k_step]. Qed.
-  Lemma k_sys_population : keepI sys_population. Proof. unfold sys_population. repeat k_step. Qed.
-  Lemma k_update_next_event_date j : keepI (update_next_event_date cf j).
-  Proof. unfold update_next_event_date. repeat first [apply k_is_inf | k_step]. Qed.
-  Lemma k_update_all js : keepI (update_all cf js).
-  Proof. induction js as [|j r IH]; cbn [update_all]; [apply keepI_ret|]. apply keepI_bind; [apply k_update_next_event_date|intros; exact IH]. Qed.
-  Lemma k_find_next_event_date : keepI find_next_event_date.
+  Lemma bk_k_write_individual_record j x : keepI (write_individual_record cf j x).
+  Proof. unfold write_individual_record. repeat first [apply bk_k_is_inf | bk_k_step]. Qed.
+  Lemma bk_k_write_br_record j x ty : keepI (write_br_record j x ty). Proof. unfold write_br_record. repeat bk_k_step. Qed.
+  Lemma bk_k_bsip_release j freed : keepI (begin_service_if_possible_release cf j freed).
+  Proof. unfold begin_service_if_possible_release. repeat first [apply bk_k_choose_next_customer | apply bk_k_start_service | bk_k_step]. Qed.
+  Lemma bk_k_sys_population : keepI sys_population. Proof. unfold sys_population. repeat bk_k_step. Qed.
+  Lemma bk_k_update_next_event_date j : keepI (update_next_event_date cf j).
+  Proof. unfold update_next_event_date. repeat first [apply bk_k_is_inf | bk_k_step]. Qed.
+  Lemma bk_k_update_all js : keepI (update_all cf js).
+  Proof. induction js as [|j r IH]; cbn [update_all]; [apply keepI_ret|]. apply keepI_bind; [apply bk_k_update_next_event_date|intros; exact IH]. Qed.
+  Lemma bk_k_find_next_event_date : keepI find_next_event_date.
   Proof. apply keepI_modify. intros s. destruct (find_min_dates 1 (a_dates (arr s)) (None, 0, 0)) as [[d j] c]. reflexivity. Qed.
-  Lemma k_find_next_active_node : keepI find_next_active_node.
+  Lemma bk_k_find_next_active_node : keepI find_next_active_node.
   Proof.
     unfold find_next_active_node. apply keepI_bind; [apply keepI_gets|]. intros s0.
     destruct (scan_active 0 (a_next_date (arr s0) :: map n_next_date (nodes s0)) None [] true) as [d cands].
-    apply keepI_bind; [destruct cands as [|a [|b r]]; [apply keepI_fail|apply keepI_ret|apply k_choice_uniform]|].
+    apply keepI_bind; [destruct cands as [|a [|b r]]; [apply keepI_fail|apply keepI_ret|apply bk_k_choice_uniform]|].
     intros k. apply keepI_modify. reflexivity.
   Qed.
 End Keep.
 
 (* ---------- the invariant, on views indexed by node identity ---------- *)
-Definition vfun := Z -> option view.
-Definition setv (v : vfun) (j : Z) (x : view) : vfun := fun j' => if j' =? j then Some x else v j'.
+Definition vfun := Z -> option nview.
+Definition setv (v : vfun) (j : Z) (x : nview) : vfun := fun j' => if j' =? j then Some x else v j'.
 Definition ex0 : Z -> Z := fun _ => 0.
 Definition ex1 (d : Z) : Z -> Z := fun j => if j =? d then 1 else 0.
 Definition xd (d : Z) : Z -> Z := if d =? 0 then ex0 else ex1 d.
 
-Ltac zb :=
+Ltac bk_zb :=
   repeat match goal with
          | |- context [?a =? ?b] => destruct (Z.eqb_spec a b)
          | H : context [?a =? ?b] |- _ => destruct (Z.eqb_spec a b)
@@ -191,7 +191,7 @@ Section Blocking.
 
   (* (i) the counter is the length; (ii) a node with somebody blocked to it has a finite capacity and is full -- up to a slack dl j, which is 0
      at event boundaries and 1, inside `release`, for the one node that is about to receive a customer *)
-  Definition G (v : vfun) (dl : Z -> Z) : Prop :=
+  Definition Gv (v : vfun) (dl : Z -> Z) : Prop :=
     forall j p bq l, v j = Some (p, bq, l) ->
       l = Z.of_nat (length bq) /\ (bq <> [] -> exists c, cap_of cf j = Some c /\ c <= p + dl j).
 
@@ -243,47 +243,47 @@ Section Blocking.
   Lemma skip0 {A} (l : list A) : exists n, l = skipn n l.
   Proof. exists 0%nat. reflexivity. Qed.
 
-  Lemma G_ext v v' dl : (forall j, v' j = v j) -> G v dl -> G v' dl.
+  Lemma G_ext v v' dl : (forall j, v' j = v j) -> Gv v dl -> Gv v' dl.
   Proof. intros He H j p bq l Hj. rewrite He in Hj. exact (H _ _ _ _ Hj). Qed.
-  Lemma G_setv v dl dl' j p bq l : G v dl -> l = Z.of_nat (length bq) ->
+  Lemma G_setv v dl dl' j p bq l : Gv v dl -> l = Z.of_nat (length bq) ->
     (bq <> [] -> exists c, cap_of cf j = Some c /\ c <= p + dl' j) -> (forall j', j' <> j -> dl j' <= dl' j') ->
-    G (setv v j (p, bq, l)) dl'.
+    Gv (setv v j (p, bq, l)) dl'.
   Proof.
     intros HG Hl Hc Hs j' p' bq' l' Hv. unfold setv in Hv. destruct (Z.eqb_spec j' j) as [->|Hne].
     - injection Hv as <- <- <-. split; [exact Hl|exact Hc].
     - destruct (HG _ _ _ _ Hv) as [A B]. split; [exact A|]. intros Hn. destruct (B Hn) as (c & Hc' & Hle). exists c. split; [exact Hc'|].
       specialize (Hs j' Hne). lia.
   Qed.
-  Lemma G_weaken v dl dl' : (forall j, dl j <= dl' j) -> G v dl -> G v dl'.
+  Lemma G_weaken v dl dl' : (forall j, dl j <= dl' j) -> Gv v dl -> Gv v dl'.
   Proof.
     intros Hs HG j p bq l Hv. destruct (HG _ _ _ _ Hv) as [A B]. split; [exact A|]. intros Hn. destruct (B Hn) as (c & Hc & Hle).
     exists c. split; [exact Hc|]. specialize (Hs j). lia.
   Qed.
   Lemma xd_le d j : ex0 j <= xd d j.
-  Proof. unfold xd, ex0, ex1. zb; lia. Qed.
+  Proof. unfold xd, ex0, ex1. bk_zb; lia. Qed.
 
   (* customer leaves j for the exit *)
-  Lemma G_move_exit v j p bq l : G v ex0 -> v j = Some (p, bq, l) -> G (setv v j (p - 1, bq, l)) (ex1 j).
+  Lemma G_move_exit v j p bq l : Gv v ex0 -> v j = Some (p, bq, l) -> Gv (setv v j (p - 1, bq, l)) (ex1 j).
   Proof.
     intros HG Hj. destruct (HG _ _ _ _ Hj) as [A B]. apply (G_setv v ex0); [exact HG|exact A| |].
     - intros Hn. destruct (B Hn) as (c & Hc & Hle). exists c. split; [exact Hc|]. unfold ex0, ex1 in *. rewrite Z.eqb_refl. lia.
-    - intros j' Hne. unfold ex0, ex1. zb; lia.
+    - intros j' Hne. unfold ex0, ex1. bk_zb; lia.
   Qed.
   (* customer leaves j for d, which had slack 1 *)
-  Lemma G_move v j d p bq l pd bqd ld : G v (ex1 d) -> v j = Some (p, bq, l) -> setv v j (p - 1, bq, l) d = Some (pd, bqd, ld) ->
-    G (setv (setv v j (p - 1, bq, l)) d (pd + 1, bqd, ld)) (ex1 j).
+  Lemma G_move v j d p bq l pd bqd ld : Gv v (ex1 d) -> v j = Some (p, bq, l) -> setv v j (p - 1, bq, l) d = Some (pd, bqd, ld) ->
+    Gv (setv (setv v j (p - 1, bq, l)) d (pd + 1, bqd, ld)) (ex1 j).
   Proof.
     intros HG Hj Hd. destruct (HG _ _ _ _ Hj) as [A B].
-    assert (G1 : G (setv v j (p - 1, bq, l)) (fun j' => ex1 d j' + ex1 j j')).
+    assert (G1 : Gv (setv v j (p - 1, bq, l)) (fun j' => ex1 d j' + ex1 j j')).
     { apply (G_setv v (ex1 d)); [exact HG|exact A| |].
       - intros Hn. destruct (B Hn) as (c & Hc & Hle). exists c. split; [exact Hc|]. unfold ex1 in *. rewrite (Z.eqb_refl j). lia.
-      - intros j' Hne. unfold ex1. zb; lia. }
+      - intros j' Hne. unfold ex1. bk_zb; lia. }
     destruct (G1 _ _ _ _ Hd) as [A1 B1]. apply (G_setv _ _ _ _ _ _ _ G1); [exact A1| |].
     - intros Hn. destruct (B1 Hn) as (c & Hc & Hle). exists c. split; [exact Hc|]. unfold ex1 in *. rewrite (Z.eqb_refl d) in Hle. lia.
-    - intros j' Hne. unfold ex1. zb; lia.
+    - intros j' Hne. unfold ex1. bk_zb; lia.
   Qed.
   (* release_blocked_individual of j finds nobody to unblock: the slack at j is not needed *)
-  Lemma G_close v j p bq l : G v (ex1 j) -> v j = Some (p, bq, l) -> (bq = [] \/ exists c, cap_of cf j = Some c /\ c <= p) -> G v ex0.
+  Lemma G_close v j p bq l : Gv v (ex1 j) -> v j = Some (p, bq, l) -> (bq = [] \/ exists c, cap_of cf j = Some c /\ c <= p) -> Gv v ex0.
   Proof.
     intros HG Hj Hc j' p' bq' l' Hv. destruct (HG _ _ _ _ Hv) as [A B]. split; [exact A|]. intros Hn. destruct (B Hn) as (c & Hc' & Hle).
     revert Hle. unfold ex1, ex0. destruct (Z.eqb_spec j' j) as [->|Hne]; intros Hle.
@@ -291,36 +291,36 @@ Section Blocking.
     - exists c. split; [exact Hc'|lia].
   Qed.
   (* the head of j's blocked queue is taken *)
-  Lemma G_pop v dl j p e rest l : G v dl -> v j = Some (p, e :: rest, l) -> G (setv v j (p, rest, l - 1)) dl.
+  Lemma G_pop v dl j p e rest l : Gv v dl -> v j = Some (p, e :: rest, l) -> Gv (setv v j (p, rest, l - 1)) dl.
   Proof.
     intros HG Hj. destruct (HG _ _ _ _ Hj) as [A B]. apply (G_setv v dl); [exact HG|cbn [length] in A; lia| |intros; lia].
     intros Hn. apply B. discriminate.
   Qed.
   (* an arrival into j *)
-  Lemma G_inc v dl j p bq l : G v dl -> v j = Some (p, bq, l) -> G (setv v j (p + 1, bq, l)) dl.
+  Lemma G_inc v dl j p bq l : Gv v dl -> v j = Some (p, bq, l) -> Gv (setv v j (p + 1, bq, l)) dl.
   Proof.
     intros HG Hj. destruct (HG _ _ _ _ Hj) as [A B]. apply (G_setv v dl); [exact HG|exact A| |intros; lia].
     intros Hn. destruct (B Hn) as (c & Hc & Hle). exists c. split; [exact Hc|lia].
   Qed.
   (* a customer becomes blocked to d, which has a finite capacity and is full *)
-  Lemma G_push v d p bq l e c : G v ex0 -> v d = Some (p, bq, l) -> cap_of cf d = Some c -> c <= p -> G (setv v d (p, bq ++ [e], l + 1)) ex0.
+  Lemma G_push v d p bq l e c : Gv v ex0 -> v d = Some (p, bq, l) -> cap_of cf d = Some c -> c <= p -> Gv (setv v d (p, bq ++ [e], l + 1)) ex0.
   Proof.
     intros HG Hd Hc Hle. destruct (HG _ _ _ _ Hd) as [A B]. apply (G_setv v ex0); [exact HG|rewrite app_length; cbn [length]; lia| |intros; lia].
     intros _. exists c. split; [exact Hc|unfold ex0; lia].
   Qed.
 
-  (* ---------- the state has view v ---------- *)
-  Definition K (s : sim) (v : vfun) : Prop := Idx s /\ forall j, bvZ s j = v j.
-  Lemma K_self s : Idx s -> K s (bvZ s).
+  (* ---------- the state has nview v ---------- *)
+  Definition Kv (s : sim) (v : vfun) : Prop := Idx s /\ forall j, bvZ s j = v j.
+  Lemma K_self s : Idx s -> Kv s (bvZ s).
   Proof. intros H. split; [exact H|reflexivity]. Qed.
-  Lemma K_ext s v v' : (forall j, v' j = v j) -> K s v -> K s v'.
+  Lemma K_ext s v v' : (forall j, v' j = v j) -> Kv s v -> Kv s v'.
   Proof. intros He [A B]. split; [exact A|]. intros j. rewrite He. apply B. Qed.
-  Lemma K_keep {A} (m : M A) s a s' v : keepI m -> K s v -> m s = Ok (a, s') -> K s' v.
+  Lemma K_keep {A} (m : M A) s a s' v : keepI m -> Kv s v -> m s = Ok (a, s') -> Kv s' v.
   Proof.
     intros Hm [HI HV] H. pose proof (Hm _ _ _ HI H) as E. split; [eapply Idx_BV; eauto|].
     intros j. rewrite (bvZ_BV _ _ _ E). apply HV.
   Qed.
-  Lemma K_nodes s s' v : nodes s' = nodes s -> K s v -> K s' v.
+  Lemma K_nodes s s' v : nodes s' = nodes s -> Kv s v -> Kv s' v.
   Proof.
     intros H [HI HV]. split; [intros k nd Hk; rewrite H in Hk; apply (HI k nd Hk)|].
     intros j. unfold bvZ. rewrite H. apply HV.
@@ -338,9 +338,9 @@ Section Blocking.
       apply Z.ltb_ge in E0. cbn. rewrite nth_error_upd_neq by lia. reflexivity.
   Qed.
 
-  (* node j, present in the view, is written back with view x *)
-  Lemma K_put nd s s' v j x x0 : K s v -> put_node nd s = Ok (tt, s') -> n_id nd = j -> v j = Some x0 ->
-    (n_pop nd, n_bq nd, n_lenbq nd) = x -> K s' (setv v j x).
+  (* node j, present in the nview, is written back with nview x *)
+  Lemma K_put nd s s' v j x x0 : Kv s v -> put_node nd s = Ok (tt, s') -> n_id nd = j -> v j = Some x0 ->
+    (n_pop nd, n_bq nd, n_lenbq nd) = x -> Kv s' (setv v j x).
   Proof.
     intros [HI HV] H Hid Hj Hx.
     assert (Hn : exists nd0, nthZ (nodes s) (j - 1) = Some nd0).
@@ -363,18 +363,18 @@ Section Blocking.
             | (let Hi := fresh "Hid" in apply get_ind_id in E as [-> Hi])
             | idtac ]
     end.
-  (* carry the view over an action that keeps it *)
+  (* carry the nview over an action that keeps it *)
   Ltac kk tac :=
     match goal with
-    | HK : K ?s ?v, E : ?m ?s = Ok (_, ?s1) |- _ =>
+    | HK : Kv ?s ?v, E : ?m ?s = Ok (_, ?s1) |- _ =>
       let HH := fresh "HH" in let HK' := fresh "HK" in
       assert (HH : keepI m) by tac;
       pose proof (K_keep m s _ s1 v HH HK E) as HK'; clear HK E HH
     end.
-  Ltac nameK N := match goal with X : K _ _ |- _ => rename X into N end.
+  Ltac nameK N := match goal with X : Kv _ _ |- _ => rename X into N end.
 
-  Definition Post (v : vfun) (s' : sim) : Prop := exists v', K s' v' /\ G v' ex0 /\ dropV v v'.
-  Lemma Post_keep v s' : K s' v -> G v ex0 -> Post v s'.
+  Definition Post (v : vfun) (s' : sim) : Prop := exists v', Kv s' v' /\ Gv v' ex0 /\ dropV v v'.
+  Lemma Post_keep v s' : Kv s' v -> Gv v ex0 -> Post v s'.
   Proof. intros A B. exists v. split; [exact A|]. split; [exact B|apply dropV_refl]. Qed.
   Lemma Post_trans v v1 s' : dropV v v1 -> Post v1 s' -> Post v s'.
   Proof. intros F (v' & A & B & C). exists v'. split; [exact A|]. split; [exact B|eapply dropV_trans; eauto]. Qed.
@@ -383,13 +383,13 @@ Section Blocking.
   Definition pushV (j : Z) (v v' : vfun) : Prop :=
     exists D i p bq l c, v D = Some (p, bq, l) /\ cap_of cf D = Some c /\ c <= p /\
                          forall j', v' j' = setv v D (p, bq ++ [(j, i)], l + 1) j'.
-  Definition PostE (j : Z) (v : vfun) (s' : sim) : Prop := exists v', K s' v' /\ G v' ex0 /\ (dropV v v' \/ pushV j v v').
+  Definition PostE (j : Z) (v : vfun) (s' : sim) : Prop := exists v', Kv s' v' /\ Gv v' ex0 /\ (dropV v v' \/ pushV j v v').
   Lemma Post_E j v s' : Post v s' -> PostE j v s'.
   Proof. intros (v' & A & B & C). exists v'. auto. Qed.
 
   (* ---------- accept: one more customer at node j ---------- *)
-  Lemma accept_blk j x s s' v : K s v -> accept cf j x s = Ok (tt, s') ->
-    exists p bq l, v j = Some (p, bq, l) /\ K s' (setv v j (p + 1, bq, l)).
+  Lemma accept_blk j x s s' v : Kv s v -> accept cf j x s = Ok (tt, s') ->
+    exists p bq l, v j = Some (p, bq, l) /\ Kv s' (setv v j (p + 1, bq, l)).
   Proof.
     intros HK H. unfold accept in H.
     mstep H.
@@ -401,12 +401,12 @@ Section Blocking.
     mstep H.
     match goal with E : put_node ?nd ?sa = Ok (?u, ?sb) |- _ =>
       destruct u; pose proof (K_put nd sa sb v j (n_pop nd0 + 1, n_bq nd0, n_lenbq nd0) _ HK1 E Hidj Hvj eq_refl) as HK2; clear HK1 E end.
-    kk ltac:(apply k_bsip_accept). nameK HK3.
+    kk ltac:(apply bk_k_bsip_accept). nameK HK3.
     exists (n_pop nd0), (n_bq nd0), (n_lenbq nd0). split; [exact Hvj|exact HK3].
   Qed.
 
   (* ---------- release with the cascade: afterwards nobody waits for a node that has space ---------- *)
-  Lemma release_blk : forall f j i d s s' v, K s v -> G v (xd d) -> release cf f j i d s = Ok (tt, s') -> Post v s'.
+  Lemma release_blk : forall f j i d s s' v, Kv s v -> Gv v (xd d) -> release cf f j i d s = Ok (tt, s') -> Post v s'.
   Proof.
     induction f as [|f IH]; intros j i d s s' v HK HG H; [discriminate|].
     cbn [release] in H.
@@ -421,18 +421,18 @@ Section Blocking.
     pose proof (dropV_setv v j _ _ _ (n_pop nd0 - 1) (n_bq nd0) (n_lenbq nd0) Hvj (skip0 _)) as F1.
     set (v1 := setv v j (n_pop nd0 - 1, n_bq nd0, n_lenbq nd0)) in *.
     mstep H. kk ltac:(apply keepI_put_ind).
-    mstep H. kk ltac:(apply k_write_individual_record).
+    mstep H. kk ltac:(apply bk_k_write_individual_record).
     mstep H.
-    mstep H. kk ltac:(repeat k_step).
+    mstep H. kk ltac:(repeat bk_k_step).
     mstep H.
     mstep H. kk ltac:(apply keepI_put_ind).
-    mstep H. kk ltac:(apply k_bsip_release). nameK HK5.
+    mstep H. kk ltac:(apply bk_k_bsip_release). nameK HK5.
     (* the customer lands *)
     mstep H.
     match goal with X : (if d =? 0 then _ else _) _ = Ok (?u, ?sx) |- _ => destruct u; rename X into EL; rename sx into sL end.
-    assert (L : exists v2, K sL v2 /\ G v2 (ex1 j) /\ dropV v v2).
+    assert (L : exists v2, Kv sL v2 /\ Gv v2 (ex1 j) /\ dropV v v2).
     { revert HG EL. unfold xd. destruct (Z.eqb_spec d 0) as [Hd0|Hd0]; intros HG EL.
-      - exists v1. split; [exact (K_keep _ _ _ _ _ (k_exit_accept _ _) HK5 EL)|]. split; [|exact F1].
+      - exists v1. split; [exact (K_keep _ _ _ _ _ (bk_k_exit_accept _ _) HK5 EL)|]. split; [|exact F1].
         apply G_move_exit; assumption.
       - destruct (accept_blk _ _ _ _ _ HK5 EL) as (pd & bqd & ld & Hvd & HK6).
         exists (setv v1 d (pd + 1, bqd, ld)). split; [exact HK6|]. split.
@@ -466,21 +466,21 @@ Section Blocking.
   Qed.
 
   (* ---------- finish_service: move on when there is space, otherwise join the END of the destination's blocked queue ---------- *)
-  Lemma finish_service_blk j s s' v : K s v -> G v ex0 -> finish_service cf j s = Ok (tt, s') -> PostE j v s'.
+  Lemma finish_service_blk j s s' v : Kv s v -> Gv v ex0 -> finish_service cf j s = Ok (tt, s') -> PostE j v s'.
   Proof.
     intros HK HG H. unfold finish_service in H.
     mstep H.
     mstep H.
     match goal with E : _ s = Ok (?ii, _) |- _ => rename ii into i0 end.
-    kk ltac:(repeat first [apply k_choice_uniform | k_step]).
+    kk ltac:(repeat first [apply bk_k_choice_uniform | bk_k_step]).
     mstep H. mstep H.
-    mstep H. kk ltac:(repeat first [apply k_choice_weighted | k_step]).
+    mstep H. kk ltac:(repeat first [apply bk_k_choice_weighted | bk_k_step]).
     mstep H. mstep H.
-    mstep H. kk ltac:(apply k_choice_weighted).
+    mstep H. kk ltac:(apply bk_k_choice_weighted).
     match type of H with context [if Nat.ltb ?k (length ?row) then ?x else ?y] => set (D := if Nat.ltb k (length row) then x else y) in * end.
     mstep H. kk ltac:(apply keepI_put_ind).
     mstep H.
-    mstep H. kk ltac:(repeat k_step). nameK HK5.
+    mstep H. kk ltac:(repeat bk_k_step). nameK HK5.
     mstep H.
     match goal with E : (if D =? 0 then ret true else _) ?sa = Ok (?sp, ?sb) |- _ =>
       assert (Hsp : sb = sa /\ (sp = false -> D <> 0 /\ exists p bq l c, v D = Some (p, bq, l) /\ cap_of cf D = Some c /\ c <= p));
@@ -510,29 +510,29 @@ Section Blocking.
   Qed.
 
   (* ---------- arrivals: an admitted customer only makes its node fuller ---------- *)
-  Lemma release_individual_blk j x s s' v : K s v -> G v ex0 -> release_individual cf j x s = Ok (tt, s') -> Post v s'.
+  Lemma release_individual_blk j x s s' v : Kv s v -> Gv v ex0 -> release_individual cf j x s = Ok (tt, s') -> Post v s'.
   Proof.
     intros HK HG H. unfold release_individual in H.
     mstep H. mstep H.
     mstep H. (* sys_population: read-only, solved by computation *)
     mstep H. kk ltac:(apply keepI_put_ind).
-    assert (Hacc : forall sa sb, K sa v -> accept cf j x sa = Ok (tt, sb) -> Post v sb).
+    assert (Hacc : forall sa sb, Kv sa v -> accept cf j x sa = Ok (tt, sb) -> Post v sb).
     { intros sa sb HKa Ha. destruct (accept_blk _ _ _ _ _ HKa Ha) as (p & bq & l & Hvj & HKb).
       eexists. split; [exact HKb|]. split; [apply G_inc; assumption|apply (dropV_setv v j _ _ _ _ _ _ Hvj), skip0]. }
     match type of H with (if ?b then _ else _) _ = _ => destruct b end.
-    - mstep H. kk ltac:(apply k_write_br_record). nameK HK3.
-      apply Post_keep; [|exact HG]. exact (K_keep _ _ _ _ _ (k_exit_accept _ _) HK3 H).
+    - mstep H. kk ltac:(apply bk_k_write_br_record). nameK HK3.
+      apply Post_keep; [|exact HG]. exact (K_keep _ _ _ _ _ (bk_k_exit_accept _ _) HK3 H).
     - mstep H. mstep H.
       match type of H with (match ?t with _ => _ end) _ = _ => destruct t as [tb|] end.
       + mstep H. kk ltac:(apply keepI_draw_unif).
         match type of H with (if ?b then _ else _) _ = _ => destruct b end.
-        * mstep H. kk ltac:(apply k_write_br_record). nameK HK3.
-          apply Post_keep; [|exact HG]. exact (K_keep _ _ _ _ _ (k_exit_accept _ _) HK3 H).
+        * mstep H. kk ltac:(apply bk_k_write_br_record). nameK HK3.
+          apply Post_keep; [|exact HG]. exact (K_keep _ _ _ _ _ (bk_k_exit_accept _ _) HK3 H).
         * mstep H. kk ltac:(apply keepI_modify; intros ?; reflexivity). nameK HK3. eapply Hacc; eauto.
       + mstep H. kk ltac:(apply keepI_modify; intros ?; reflexivity). nameK HK3. eapply Hacc; eauto.
   Qed.
 
-  Lemma batch_loop_blk : forall n j c p s s' v, K s v -> G v ex0 -> batch_loop cf n j c p s = Ok (tt, s') -> Post v s'.
+  Lemma batch_loop_blk : forall n j c p s s' v, Kv s v -> Gv v ex0 -> batch_loop cf n j c p s = Ok (tt, s') -> Post v s'.
   Proof.
     induction n as [|n IH]; intros j c p s s' v HK HG H; cbn [batch_loop] in H; [apply ret_spec in H as [-> _]; apply Post_keep; assumption|].
     mstep H. kk ltac:(apply keepI_modify; intros ?; reflexivity). nameK HK1.
@@ -543,12 +543,12 @@ Section Blocking.
     eapply Post_trans; [exact F2|]. eapply IH; eauto.
   Qed.
 
-  Lemma arrival_have_event_blk s s' v : K s v -> G v ex0 -> arrival_have_event cf s = Ok (tt, s') -> Post v s'.
+  Lemma arrival_have_event_blk s s' v : Kv s v -> Gv v ex0 -> arrival_have_event cf s = Ok (tt, s') -> Post v s'.
   Proof.
     intros HK HG H. unfold arrival_have_event in H.
     mstep H.
     mstep H. kk ltac:(apply keepI_draw_batch).
-    mstep H. kk ltac:(repeat k_step).
+    mstep H. kk ltac:(repeat bk_k_step).
     mstep H.
     mstep H. nameK HK2.
     match goal with E : batch_loop _ _ _ _ _ _ = Ok (?u, _) |- _ =>
@@ -556,11 +556,11 @@ Section Blocking.
     mstep H. kk ltac:(apply keepI_draw_arr).
     mstep H. mstep H. mstep H.
     mstep H. kk ltac:(apply keepI_modify; intros ?; reflexivity). nameK HK4.
-    exists v3. split; [exact (K_keep _ _ _ _ _ k_find_next_event_date HK4 H)|]. split; assumption.
+    exists v3. split; [exact (K_keep _ _ _ _ _ bk_k_find_next_event_date HK4 H)|]. split; assumption.
   Qed.
 
   (* ---------- one event ---------- *)
-  Lemma event_step_post s s' v : K s v -> G v ex0 -> event_step cf s = Ok (tt, s') -> PostE (next_active s) v s'.
+  Lemma event_step_post s s' v : Kv s v -> Gv v ex0 -> event_step cf s = Ok (tt, s') -> PostE (next_active s) v s'.
   Proof.
     intros HK HG H. unfold event_step in H.
     mstep H.
@@ -573,8 +573,8 @@ Section Blocking.
       destruct u; assert (P2 : PostE (next_active s) v sx) by (destruct b; [eapply Post_E, arrival_have_event_blk; eauto|eapply finish_service_blk; eauto]); clear HK1 E end.
     destruct P2 as (v2 & HK2 & G2 & F2).
     mstep H.
-    mstep H. kk ltac:(apply k_update_all). nameK HK3.
-    exists v2. split; [exact (K_keep _ _ _ _ _ k_find_next_active_node HK3 H)|]. split; assumption.
+    mstep H. kk ltac:(apply bk_k_update_all). nameK HK3.
+    exists v2. split; [exact (K_keep _ _ _ _ _ bk_k_find_next_active_node HK3 H)|]. split; assumption.
   Qed.
 End Blocking.
 
@@ -616,7 +616,7 @@ Proof.
   exists k, nd. split; [lia|]. split; [exact Hnk|reflexivity].
 Qed.
 
-Lemma Blk_iff cf s : Blk cf s <-> (Idx s /\ G cf (bvZ s) ex0).
+Lemma Blk_iff cf s : Blk cf s <-> (Idx s /\ Gv cf (bvZ s) ex0).
 Proof.
   split.
   - intros H. split; [intros k nd Hk; apply (H k nd Hk)|].
@@ -676,8 +676,8 @@ Qed.
 Theorem event_step_blk cf s s' : Blk cf s -> event_step cf s = Ok (tt, s') -> Blk cf s'.
 Proof.
   intros HB H. apply Blk_iff in HB as [HI HG].
-  destruct (event_step_post cf s s' (bvZ s) (K_self s HI) HG H) as (v' & [HI' HV'] & G' & _).
-  apply Blk_iff. split; [exact HI'|]. eapply G_ext; [|exact G']. exact HV'.
+  destruct (event_step_post cf s s' (bvZ s) (K_self s HI) HG H) as (v' & [HI' HV'] & Gv' & _).
+  apply Blk_iff. split; [exact HI'|]. eapply G_ext; [|exact Gv']. exact HV'.
 Qed.
 
 Theorem event_step_fifo cf s s' : Blk cf s -> event_step cf s = Ok (tt, s') -> heads_only s s' \/ one_blocked cf s s'.
@@ -854,17 +854,17 @@ Proof.
   - destruct Hy as [<-|Hy]; [auto|]. right. split; [auto|]. intros E2. apply Hn. rewrite E, <- E2. apply in_map. exact Hy.
   - destruct Hy as [<-|Hy]; [right; split; [auto|exact E]|]. destruct (IH Hd Hy) as [->|[A B]]; auto.
 Qed.
-Lemma find_server_In i l sv : find_server i l = Some sv -> In sv l /\ sv_id sv = i.
+Lemma bk_find_server_In i l sv : find_server i l = Some sv -> In sv l /\ sv_id sv = i.
 Proof.
   induction l as [|y r IH]; cbn; [discriminate|]. destruct (Z.eqb_spec (sv_id y) i) as [E|E].
   - intros H. injection H as <-. auto.
   - intros H. destruct (IH H). auto.
 Qed.
-Lemma find_free_server_In l sv : find_free_server l = Some sv -> In sv l.
+Lemma bk_find_free_server_In l sv : find_free_server l = Some sv -> In sv l.
 Proof. induction l as [|y r IH]; cbn; [discriminate|]. destruct (sv_busy y); [auto|intros H; injection H as <-; auto]. Qed.
 
 (* the customers update_next_event_date puts into n_next_inds of a finite-server node are customers of live servers *)
-Lemma scan_servers_spec : forall l best acc c, In c (snd (scan_servers l best acc)) ->
+Lemma bk_scan_servers_spec : forall l best acc c, In c (snd (scan_servers l best acc)) ->
   In c acc \/ exists sv e, In sv l /\ sv_cust sv = Some c /\ sv_next_end sv = Some e.
 Proof.
   induction l as [|sv r IH]; intros best acc c H; cbn [scan_servers] in H; [auto|].
@@ -880,7 +880,7 @@ Proof.
     + destruct (IH _ _ _ H) as [Hc|(sv' & e' & A & B & C)]; [auto|right; exists sv', e'; cbn; auto].
 Qed.
 (* ... and of an infinite-server node: customers of the node that are not blocked *)
-Lemma scan_inds_spec t il : forall q best acc c, In c (snd (scan_inds t q il best acc)) ->
+Lemma bk_scan_inds_spec t il : forall q best acc c, In c (snd (scan_inds t q il best acc)) ->
   In c acc \/ (In c q /\ exists x, find_ind c il = Some x /\ i_blocked x = false).
 Proof.
   induction q as [|i r IH]; intros best acc c H; cbn [scan_inds] in H; [auto|].
@@ -899,26 +899,26 @@ Proof.
 Qed.
 
 (* choose_next_customer only proposes customers of the node that hold no server *)
-Lemma waiting_of_spec il : forall q c, In c (waiting_of q il) -> In c q /\ exists x, find_ind c il = Some x /\ i_server x = None.
+Lemma bk_waiting_of_spec il : forall q c, In c (waiting_of q il) -> In c q /\ exists x, find_ind c il = Some x /\ i_server x = None.
 Proof.
   induction q as [|i r IH]; intros c H; cbn in H; [destruct H|].
   destruct (find_ind i il) as [x|] eqn:Ex; [|destruct (IH _ H); auto with datatypes].
   destruct (i_server x) eqn:Es; [destruct (IH _ H); auto with datatypes|].
   destruct H as [<-|H]; [split; [left; reflexivity|eauto]|destruct (IH _ H); auto with datatypes].
 Qed.
-Lemma first_waiting_spec il : forall qs c, In c (first_waiting qs il) -> In c (concat qs) /\ exists x, find_ind c il = Some x /\ i_server x = None.
+Lemma bk_first_waiting_spec il : forall qs c, In c (first_waiting qs il) -> In c (concat qs) /\ exists x, find_ind c il = Some x /\ i_server x = None.
 Proof.
   induction qs as [|q r IH]; intros c H; cbn in H; [destruct H|].
   destruct (waiting_of q il) as [|w0 wr] eqn:Ew.
   - destruct (IH _ H) as [A B]. split; [cbn; apply in_or_app; auto|exact B].
-  - rewrite <- Ew in H. destruct (waiting_of_spec il q c H) as [A B]. split; [cbn; apply in_or_app; auto|exact B].
+  - rewrite <- Ew in H. destruct (bk_waiting_of_spec il q c H) as [A B]. split; [cbn; apply in_or_app; auto|exact B].
 Qed.
 
 (* ---------- nodes by identity ---------- *)
 Definition nodeZ (s : sim) (j : Z) : option node := nthZ (nodes s) (j - 1).
 Definition infb (cf : config) (j : Z) : bool :=
   match nthZ (cf_nodes cf) (j - 1) with Some nc => match nc_c nc with None => true | Some _ => false end | None => false end.
-Lemma is_inf_spec cf j s b s' : is_inf cf j s = Ok (b, s') -> s' = s /\ b = infb cf j.
+Lemma bk_is_inf_spec cf j s b s' : is_inf cf j s = Ok (b, s') -> s' = s /\ b = infb cf j.
 Proof.
   unfold is_inf, ncfg_of, infb, bind, lift. destruct (nthZ (cf_nodes cf) (j - 1)) as [nc|]; cbn; [|discriminate].
   intros H. inversion H. auto.
@@ -960,7 +960,7 @@ Proof.
   - injection H2 as <-. exfalso. eapply Hd; [exact I2|eapply Hin; eauto].
   - f_equal. eapply IH; eauto. clear -Hnd. induction h as [|a h IHh]; [exact Hnd|]. cbn in Hnd. inversion Hnd; subst. auto.
 Qed.
-Lemma NoDup_app_l {A} (a b : list A) : NoDup (a ++ b) -> NoDup a.
+Lemma bk_NoDup_app_l {A} (a b : list A) : NoDup (a ++ b) -> NoDup a.
 Proof. induction a as [|x a IH]; cbn; intros H; [constructor|]. inversion H as [|? ? Hn Hd]; subst. constructor; [intros Hx; apply Hn, in_or_app; auto|auto]. Qed.
 
 Lemma WFx_ids fl s : WFx fl s -> NoDup ((concat (map all_individuals (nodes s)) ++ exit_ids s) ++ fl).
@@ -972,7 +972,7 @@ Lemma WFx_place fl s j1 j2 nd1 nd2 c : WFx fl s -> nodeZ s j1 = Some nd1 -> node
   In c (all_individuals nd1) -> In c (all_individuals nd2) -> j1 = j2.
 Proof.
   intros HW H1 H2 I1 I2. apply nodeZ_nat in H1 as (k1 & -> & H1). apply nodeZ_nat in H2 as (k2 & -> & H2).
-  pose proof (WFx_ids _ _ HW) as Hnd. apply NoDup_app_l, NoDup_app_l in Hnd.
+  pose proof (WFx_ids _ _ HW) as Hnd. apply bk_NoDup_app_l, bk_NoDup_app_l in Hnd.
   assert (k1 = k2); [|lia].
   eapply (NoDup_concat_unique (map all_individuals (nodes s))); [exact Hnd| | |exact I1|exact I2]; rewrite nth_error_map; [rewrite H1|rewrite H2]; reflexivity.
 Qed.
@@ -985,13 +985,13 @@ Qed.
 
 (* ---------- the invariant about who is blocked ---------- *)
 Definition entry (s : sim) (d from y : Z) : Prop := exists nd, nodeZ s d = Some nd /\ In (from, y) (n_bq nd).
-Definition at_node (s : sim) (j y : Z) : Prop := exists nd, nodeZ s j = Some nd /\ In y (all_individuals nd).
+Definition bk_at_node (s : sim) (j y : Z) : Prop := exists nd, nodeZ s j = Some nd /\ In y (all_individuals nd).
 (* customer i is in no blocked queue / is the customer of no server that has an end-of-service date *)
-Definition N0 (s : sim) (i : Z) : Prop := forall d from, ~ entry s d from i.
-Definition NL (s : sim) (i : Z) : Prop :=
+Definition NoEntry (s : sim) (i : Z) : Prop := forall d from, ~ entry s d from i.
+Definition NoLive (s : sim) (i : Z) : Prop :=
   forall j nd sv e, nodeZ s j = Some nd -> In sv (n_servers nd) -> sv_next_end sv = Some e -> sv_cust sv <> Some i.
 
-Record W (cf : config) (ex : list Z) (s : sim) : Prop := mkW {
+Record Wh (cf : config) (ex : list Z) (s : sim) : Prop := mkWh {
   (* the customer table: one record per identifier, identifiers are at most the creation counter *)
   w_nd : NoDup (map i_id (inds s));
   w_le : forall x, In x (inds s) -> i_id x <= a_created (arr s);
@@ -1000,7 +1000,7 @@ Record W (cf : config) (ex : list Z) (s : sim) : Prop := mkW {
   (* an entry (from, y) of the blocked queue of d: y is a customer of node `from`, flagged blocked, with destination d,
      holding a server when `from` has finitely many *)
   w_ent : forall d from y, entry s d from y ->
-    exists x, find_ind y (inds s) = Some x /\ i_blocked x = true /\ i_dest x = Some d /\ at_node s from y /\
+    exists x, find_ind y (inds s) = Some x /\ i_blocked x = true /\ i_dest x = Some d /\ bk_at_node s from y /\
               (infb cf from = true \/ i_server x <> None);
   (* conversely a customer flagged blocked is in a blocked queue (ex: the customer `release` is moving right now) *)
   w_blk : forall x, In x (inds s) -> i_blocked x = true -> In (i_id x) ex \/ exists d from, entry s d from (i_id x);
@@ -1018,32 +1018,32 @@ Proof.
   intros H (nd & Hn & Hin). specialize (H d). rewrite Hn in H. destruct (nodeZ s' d) as [nd'|] eqn:En'; [|discriminate].
   cbn in H. injection H as H. exists nd'. split; [exact En'|rewrite H; exact Hin].
 Qed.
-Lemma N0_nodes s s' i : (forall j, option_map n_bq (nodeZ s' j) = option_map n_bq (nodeZ s j)) -> N0 s i -> N0 s' i.
+Lemma N0_nodes s s' i : (forall j, option_map n_bq (nodeZ s' j) = option_map n_bq (nodeZ s j)) -> NoEntry s i -> NoEntry s' i.
 Proof. intros H HN d from He. apply (HN d from). eapply entry_nodes; [|exact He]. intros j. symmetry. apply H. Qed.
 Lemma nodeZ_BV s s' j : BV s' = BV s -> option_map n_bq (nodeZ s' j) = option_map n_bq (nodeZ s j).
 Proof.
   intros H. pose proof (bvZ_BV s s' j H) as E. unfold bvZ in E. fold (nodeZ s' j) in E. fold (nodeZ s j) in E.
   destruct (nodeZ s' j) as [a|], (nodeZ s j) as [b|]; cbn in *; try discriminate; [|reflexivity]. injection E as _ E _. rewrite E. reflexivity.
 Qed.
-Lemma N0_BV s s' i : BV s' = BV s -> N0 s i -> N0 s' i.
+Lemma N0_BV s s' i : BV s' = BV s -> NoEntry s i -> NoEntry s' i.
 Proof. intros H. apply N0_nodes. intros j. apply nodeZ_BV. exact H. Qed.
 
-Lemma W_ex_mono cf ex ex' s : (forall y, In y ex -> In y ex') -> W cf ex s -> W cf ex' s.
+Lemma W_ex_mono cf ex ex' s : (forall y, In y ex -> In y ex') -> Wh cf ex s -> Wh cf ex' s.
 Proof.
-  intros H [A B C D E F G Hnf]. constructor; auto. intros x Hx Hb. destruct (E x Hx Hb) as [E1|E1]; auto.
+  intros H [A B C D E F Gv Hnf]. constructor; auto. intros x Hx Hb. destruct (E x Hx Hb) as [E1|E1]; auto.
 Qed.
 (* a customer in flight is nobody's live customer *)
-Lemma NL_inflight cf ex i fl s : WFx (i :: fl) s -> W cf ex s -> NL s i.
+Lemma NL_inflight cf ex i fl s : WFx (i :: fl) s -> Wh cf ex s -> NoLive s i.
 Proof.
   intros HW HWw j nd sv e Hn Hsv He Hc. destruct (w_live _ _ _ HWw j nd sv e i Hn Hsv He Hc) as [Hin _].
   exact (WFx_inflight _ _ _ _ _ HW Hn Hin).
 Qed.
 (* a customer flagged blocked is nobody's live customer; one not flagged is in no blocked queue *)
-Lemma NL_blocked cf ex s i x : W cf ex s -> find_ind i (inds s) = Some x -> i_blocked x = true -> NL s i.
+Lemma NL_blocked cf ex s i x : Wh cf ex s -> find_ind i (inds s) = Some x -> i_blocked x = true -> NoLive s i.
 Proof.
   intros HWw Hx Hb j nd sv e Hn Hsv He Hc. destruct (w_live _ _ _ HWw j nd sv e i Hn Hsv He Hc) as (_ & x' & Hx' & Hb' & _). congruence.
 Qed.
-Lemma N0_unblocked cf ex s i x : W cf ex s -> find_ind i (inds s) = Some x -> i_blocked x = false -> N0 s i.
+Lemma N0_unblocked cf ex s i x : Wh cf ex s -> find_ind i (inds s) = Some x -> i_blocked x = false -> NoEntry s i.
 Proof. intros HWw Hx Hb d from He. destruct (w_ent _ _ _ HWw d from i He) as (x' & Hx' & Hb' & _). congruence. Qed.
 
 (* ---------- primitive changes of the customer table ---------- *)
@@ -1055,18 +1055,18 @@ Section Prim.
 
   Lemma entry_same d from y : entry s' d from y <-> entry s d from y.
   Proof. unfold entry. rewrite Hnodes. reflexivity. Qed.
-  Lemma at_node_same j y : at_node s' j y <-> at_node s j y.
-  Proof. unfold at_node. rewrite Hnodes. reflexivity. Qed.
+  Lemma at_node_same j y : bk_at_node s' j y <-> bk_at_node s j y.
+  Proof. unfold bk_at_node. rewrite Hnodes. reflexivity. Qed.
 
   (* the record x of customer i is replaced by x' *)
-  Lemma W_put_ind ex ex' i x x' : W cf ex s -> find_ind i (inds s) = Some x -> i_id x' = i -> inds s' = put_ind_l x' (inds s) ->
-    ((i_blocked x' = i_blocked x /\ i_server x' = i_server x) \/ NL s i) ->
-    ((i_blocked x' = i_blocked x /\ i_dest x' = i_dest x /\ i_server x' = i_server x) \/ N0 s i) ->
+  Lemma W_put_ind ex ex' i x x' : Wh cf ex s -> find_ind i (inds s) = Some x -> i_id x' = i -> inds s' = put_ind_l x' (inds s) ->
+    ((i_blocked x' = i_blocked x /\ i_server x' = i_server x) \/ NoLive s i) ->
+    ((i_blocked x' = i_blocked x /\ i_dest x' = i_dest x /\ i_server x' = i_server x) \/ NoEntry s i) ->
     (forall y, In y ex -> y <> i -> In y ex') ->
     (i_blocked x' = true -> In i ex' \/ exists d from, entry s d from i) ->
-    W cf ex' s'.
+    Wh cf ex' s'.
   Proof.
-    intros [A B C D E F G Hnf] Hx Hid Hinds Sc Pc Hex Bc. constructor.
+    intros [A B C D E F Gv Hnf] Hx Hid Hinds Sc Pc Hex Bc. constructor.
     - rewrite Hinds. apply NoDup_put. exact A.
     - intros y Hy. rewrite Hinds in Hy. apply (In_put _ _ _ A) in Hy as [->|[Hy _]].
       + rewrite Hid. pose proof (B x (find_In _ _ _ Hx)) as Hle. rewrite (find_ind_id _ _ _ Hx) in Hle. lia.
@@ -1082,7 +1082,7 @@ Section Prim.
       + rewrite Hid. destruct (Bc Hb) as [Bc1|(d & from & Bc1)]; [auto|right; exists d, from; apply entry_same; exact Bc1].
       + rewrite Hid in Hne. destruct (E y Hy Hb) as [E1|(d & from & E1)]; [auto|right; exists d, from; apply entry_same; exact E1].
     - intros j nd Hn. rewrite Hnodes in Hn. eauto.
-    - intros j nd sv e c Hn Hsv He Hc. rewrite Hnodes in Hn. destruct (G j nd sv e c Hn Hsv He Hc) as (Hin & xc & Hxc & Hb & Hs).
+    - intros j nd sv e c Hn Hsv He Hc. rewrite Hnodes in Hn. destruct (Gv j nd sv e c Hn Hsv He Hc) as (Hin & xc & Hxc & Hb & Hs).
       split; [exact Hin|]. rewrite Hinds. destruct (Z.eq_dec c i) as [->|Hne].
       + destruct Sc as [(S1 & S2)|Sc]; [|exfalso; exact (Sc j nd sv e Hn Hsv He Hc)].
         exists x'. rewrite <- Hid at 1. rewrite find_put_same. rewrite Hx in Hxc. injection Hxc as <-. split; [reflexivity|]. split; congruence.
@@ -1091,10 +1091,10 @@ Section Prim.
   Qed.
 
   (* a record for a new identifier *)
-  Lemma W_put_new ex x' : W cf ex s -> find_ind (i_id x') (inds s) = None -> inds s' = put_ind_l x' (inds s) ->
-    i_id x' <= a_created (arr s') -> i_blocked x' = false -> W cf ex s'.
+  Lemma W_put_new ex x' : Wh cf ex s -> find_ind (i_id x') (inds s) = None -> inds s' = put_ind_l x' (inds s) ->
+    i_id x' <= a_created (arr s') -> i_blocked x' = false -> Wh cf ex s'.
   Proof.
-    intros [A B C D E F G Hnf] Hx Hinds Hle Hb. constructor.
+    intros [A B C D E F Gv Hnf] Hx Hinds Hle Hb. constructor.
     - rewrite Hinds. apply NoDup_put. exact A.
     - intros y Hy. rewrite Hinds in Hy. apply (In_put _ _ _ A) in Hy as [->|[Hy _]]; [exact Hle|]. specialize (B y Hy). lia.
     - intros j nd Hn. rewrite Hnodes in Hn. eauto.
@@ -1103,16 +1103,16 @@ Section Prim.
     - intros y Hy Hby. rewrite Hinds in Hy. apply (In_put _ _ _ A) in Hy as [->|[Hy Hne]]; [congruence|].
       destruct (E y Hy Hby) as [E1|(d & from & E1)]; [auto|right; exists d, from; apply entry_same; exact E1].
     - intros j nd Hn. rewrite Hnodes in Hn. eauto.
-    - intros j nd sv e c Hn Hsv He Hc. rewrite Hnodes in Hn. destruct (G j nd sv e c Hn Hsv He Hc) as (Hin & xc & Hxc & Hbc & Hs).
+    - intros j nd sv e c Hn Hsv He Hc. rewrite Hnodes in Hn. destruct (Gv j nd sv e c Hn Hsv He Hc) as (Hin & xc & Hxc & Hbc & Hs).
       split; [exact Hin|]. exists xc. rewrite Hinds, find_put_other by congruence. auto.
     - intros j nd Hn Hinf. rewrite Hnodes in Hn. eauto.
   Qed.
 
   (* the record of customer i, who is in no blocked queue and nobody's live customer, is deleted *)
-  Lemma W_del_ind ex ex' i : W cf ex s -> inds s' = del_ind_l i (inds s) -> N0 s i -> NL s i ->
-    (forall y, In y ex -> y <> i -> In y ex') -> W cf ex' s'.
+  Lemma W_del_ind ex ex' i : Wh cf ex s -> inds s' = del_ind_l i (inds s) -> NoEntry s i -> NoLive s i ->
+    (forall y, In y ex -> y <> i -> In y ex') -> Wh cf ex' s'.
   Proof.
-    intros [A B C D E F G Hnf] Hinds HN0 HNL Hex. constructor.
+    intros [A B C D E F Gv Hnf] Hinds HN0 HNL Hex. constructor.
     - rewrite Hinds. apply NoDup_del. exact A.
     - intros y Hy. rewrite Hinds in Hy. apply (In_del _ _ _ A) in Hy as [Hy _]. specialize (B y Hy). lia.
     - intros j nd Hn. rewrite Hnodes in Hn. eauto.
@@ -1122,16 +1122,16 @@ Section Prim.
     - intros y Hy Hby. rewrite Hinds in Hy. apply (In_del _ _ _ A) in Hy as [Hy Hne].
       destruct (E y Hy Hby) as [E1|(d & from & E1)]; [auto|right; exists d, from; apply entry_same; exact E1].
     - intros j nd Hn. rewrite Hnodes in Hn. eauto.
-    - intros j nd sv e c Hn Hsv He Hc. rewrite Hnodes in Hn. destruct (G j nd sv e c Hn Hsv He Hc) as (Hin & xc & Hxc & Hbc & Hs).
+    - intros j nd sv e c Hn Hsv He Hc. rewrite Hnodes in Hn. destruct (Gv j nd sv e c Hn Hsv He Hc) as (Hin & xc & Hxc & Hbc & Hs).
       assert (Hne : c <> i) by (intros ->; exact (HNL j nd sv e Hn Hsv He Hc)).
       split; [exact Hin|]. exists xc. rewrite Hinds, find_del_other by exact Hne. auto.
     - intros j nd Hn Hinf. rewrite Hnodes in Hn. eauto.
   Qed.
 
-  (* nothing W looks at changes *)
-  Lemma W_same ex : W cf ex s -> inds s' = inds s -> W cf ex s'.
+  (* nothing Wh looks at changes *)
+  Lemma W_same ex : Wh cf ex s -> inds s' = inds s -> Wh cf ex s'.
   Proof.
-    intros [A B C D E F G Hnf] Hinds. constructor.
+    intros [A B C D E F Gv Hnf] Hinds. constructor.
     - rewrite Hinds. exact A.
     - intros y Hy. rewrite Hinds in Hy. specialize (B y Hy). lia.
     - intros j nd Hn. rewrite Hnodes in Hn. eauto.
@@ -1169,7 +1169,7 @@ Section PrimNode.
       + rewrite Hn in Hnn. injection Hnn as <-. exists nd'. rewrite nodeZ_new, Hb. auto.
       + exists n. rewrite nodeZ_other by exact Hne. auto.
   Qed.
-  Lemma at_node_mono from y : (In y (all_individuals nd) -> In y (all_individuals nd')) -> at_node s from y -> at_node s' from y.
+  Lemma at_node_mono from y : (In y (all_individuals nd) -> In y (all_individuals nd')) -> bk_at_node s from y -> bk_at_node s' from y.
   Proof.
     intros Hq (n & Hnn & Hin). destruct (Z.eq_dec from j) as [->|Hne].
     - rewrite Hn in Hnn. injection Hnn as <-. exists nd'. rewrite nodeZ_new. auto.
@@ -1178,10 +1178,10 @@ Section PrimNode.
 
   (* the queues change, every customer that disappears from them being in no blocked queue and nobody's live customer *)
   Lemma W_node_q ex : n_servers nd' = n_servers nd -> n_bq nd' = n_bq nd ->
-    (forall y, In y (all_individuals nd) -> (N0 s y /\ NL s y) \/ In y (all_individuals nd')) ->
-    W cf ex s -> W cf ex s'.
+    (forall y, In y (all_individuals nd) -> (NoEntry s y /\ NoLive s y) \/ In y (all_individuals nd')) ->
+    Wh cf ex s -> Wh cf ex s'.
   Proof.
-    intros Hsv Hb Hq [A B C D E F G Hnf]. constructor.
+    intros Hsv Hb Hq [A B C D E F Gv Hnf]. constructor.
     - rewrite Hinds. exact A.
     - intros y Hy. rewrite Hinds in Hy. specialize (B y Hy). lia.
     - intros j' n Hnn. apply nodeZ_cases in Hnn as [[-> ->]|[Hne Hnn]]; [rewrite Hb|]; eauto.
@@ -1191,7 +1191,7 @@ Section PrimNode.
     - intros y Hy Hby. rewrite Hinds in Hy. destruct (E y Hy Hby) as [E1|(d & from & E1)]; [auto|right; exists d, from; apply (entry_bq_same _ _ _ Hb); exact E1].
     - intros j' n Hnn. apply nodeZ_cases in Hnn as [[-> ->]|[Hne Hnn]]; [rewrite Hsv|]; eauto.
     - intros j' n sv e c Hnn Hsvin He Hc. rewrite Hinds. apply nodeZ_cases in Hnn as [[-> ->]|[Hne Hnn]]; [|eauto].
-      rewrite Hsv in Hsvin. destruct (G j nd sv e c Hn Hsvin He Hc) as (Hin & R). split; [|exact R].
+      rewrite Hsv in Hsvin. destruct (Gv j nd sv e c Hn Hsvin He Hc) as (Hin & R). split; [|exact R].
       destruct (Hq c Hin) as [[_ HNL]|Hin']; [exfalso; exact (HNL j nd sv e Hn Hsvin He Hc)|exact Hin'].
     - intros j' n Hnn Hinf. apply nodeZ_cases in Hnn as [[-> ->]|[Hne Hnn]]; [rewrite Hsv|]; eauto.
   Qed.
@@ -1200,9 +1200,9 @@ Section PrimNode.
   Lemma W_node_sv ex sv' : n_queues nd' = n_queues nd -> n_bq nd' = n_bq nd -> n_servers nd' = put_server_l sv' (n_servers nd) ->
     (forall e c, sv_next_end sv' = Some e -> sv_cust sv' = Some c ->
        In c (all_individuals nd) /\ exists x, find_ind c (inds s) = Some x /\ i_blocked x = false /\ i_server x = Some (sv_id sv')) ->
-    W cf ex s -> W cf ex s'.
+    Wh cf ex s -> Wh cf ex s'.
   Proof.
-    intros Hq Hb Hsv Hnew [A B C D E F G Hnf].
+    intros Hq Hb Hsv Hnew [A B C D E F Gv Hnf].
     assert (Hall : all_individuals nd' = all_individuals nd) by (unfold all_individuals; rewrite Hq; reflexivity).
     constructor.
     - rewrite Hinds. exact A.
@@ -1220,9 +1220,9 @@ Section PrimNode.
 
   (* the head of the blocked queue is taken: that customer is, for the moment, flagged blocked without being in a queue *)
   Lemma W_node_pop ex e rest : all_individuals nd' = all_individuals nd -> n_servers nd' = n_servers nd -> n_bq nd = e :: rest -> n_bq nd' = rest ->
-    W cf ex s -> W cf (snd e :: ex) s'.
+    Wh cf ex s -> Wh cf (snd e :: ex) s'.
   Proof.
-    intros Hall Hsv Hb Hb' [A B C D E F G Hnf].
+    intros Hall Hsv Hb Hb' [A B C D E F Gv Hnf].
     assert (Hsub : forall d from y, entry s' d from y -> entry s d from y).
     { intros d from y (n & Hnn & Hin). apply nodeZ_cases in Hnn as [[-> ->]|[Hne Hnn]]; [exists nd; rewrite Hb; rewrite Hb' in Hin; split; [exact Hn|right; exact Hin]|exists n; auto]. }
     constructor.
@@ -1246,16 +1246,16 @@ Section PrimNode.
 
   (* customer i of node `from`, already flagged blocked with destination j, joins the end of j's blocked queue *)
   Lemma W_node_push ex ex' from i x : all_individuals nd' = all_individuals nd -> n_servers nd' = n_servers nd -> n_bq nd' = n_bq nd ++ [(from, i)] ->
-    find_ind i (inds s) = Some x -> i_blocked x = true -> i_dest x = Some j -> at_node s from i -> (infb cf from = true \/ i_server x <> None) ->
-    N0 s i -> (forall y, In y ex -> y <> i -> In y ex') ->
-    W cf ex s -> W cf ex' s'.
+    find_ind i (inds s) = Some x -> i_blocked x = true -> i_dest x = Some j -> bk_at_node s from i -> (infb cf from = true \/ i_server x <> None) ->
+    NoEntry s i -> (forall y, In y ex -> y <> i -> In y ex') ->
+    Wh cf ex s -> Wh cf ex' s'.
   Proof.
-    intros Hall Hsv Hb Hx Hbx Hdx Hax Hsx HN0 Hex [A B C D E F G Hnf].
+    intros Hall Hsv Hb Hx Hbx Hdx Hax Hsx HN0 Hex [A B C D E F Gv Hnf].
     assert (Hsup : forall d from0 y, entry s d from0 y -> entry s' d from0 y).
     { intros d from0 y (n & Hnn & Hin). destruct (Z.eq_dec d j) as [->|Hne].
       - rewrite Hn in Hnn. injection Hnn as <-. exists nd'. rewrite nodeZ_new, Hb. split; [reflexivity|apply in_or_app; auto].
       - exists n. rewrite nodeZ_other by exact Hne. auto. }
-    assert (Hat : forall f y, at_node s f y -> at_node s' f y) by (intros f y; apply at_node_mono; rewrite Hall; auto).
+    assert (Hat : forall f y, bk_at_node s f y -> bk_at_node s' f y) by (intros f y; apply at_node_mono; rewrite Hall; auto).
     constructor.
     - rewrite Hinds. exact A.
     - intros y Hy. rewrite Hinds in Hy. specialize (B y Hy). lia.
@@ -1308,7 +1308,7 @@ Proof. intros s a s' H. unfold draw_svc in H. destruct (d_svc (dr s)); inversion
 Lemma quiet_draw_unif : quiet draw_unif.
 Proof. intros s a s' H. unfold draw_unif in H. destruct (d_unif (dr s)); inversion H. repeat split; reflexivity. Qed.
 
-Ltac q_step :=
+Ltac bk_q_step :=
   first
     [ apply quiet_ret | apply quiet_fail | apply quiet_gets | apply quiet_lift | apply quiet_get_node | apply quiet_get_ind
     | apply quiet_log_rec | apply quiet_draw_arr | apply quiet_draw_batch | apply quiet_draw_svc | apply quiet_draw_unif
@@ -1319,20 +1319,20 @@ Ltac q_step :=
       | |- quiet (let '(_, _) := ?x in _) => destruct x
       end ].
 
-Lemma get_ind_spec i s x s' : get_ind i s = Ok (x, s') -> s' = s /\ find_ind i (inds s) = Some x.
+Lemma bk_get_ind_spec i s x s' : get_ind i s = Ok (x, s') -> s' = s /\ find_ind i (inds s) = Some x.
 Proof. unfold get_ind. destruct (find_ind i (inds s)) eqn:E; intros H; inversion H. subst. auto. Qed.
-Lemma put_ind_spec x s s' : put_ind x s = Ok (tt, s') -> inds s' = put_ind_l x (inds s) /\ nodes s' = nodes s /\ arr s' = arr s /\ shp s' = shp s.
+Lemma bk_put_ind_spec x s s' : put_ind x s = Ok (tt, s') -> inds s' = put_ind_l x (inds s) /\ nodes s' = nodes s /\ arr s' = arr s /\ shp s' = shp s.
 Proof. unfold put_ind, modify. intros H. inversion H. repeat split; reflexivity. Qed.
 
 Section Quiet.
   Variable cf : config.
   Lemma q_ncfg_of j : quiet (ncfg_of cf j). Proof. apply quiet_lift. Qed.
   Lemma q_is_inf j : quiet (is_inf cf j). Proof. apply quiet_ro, ro_is_inf. Qed.
-  Lemma q_choice_uniform {A} (l : list A) : quiet (choice_uniform l). Proof. unfold choice_uniform. repeat q_step. Qed.
-  Lemma q_choice_weighted den P : quiet (choice_weighted den P). Proof. unfold choice_weighted. repeat q_step. Qed.
+  Lemma q_choice_uniform {A} (l : list A) : quiet (choice_uniform l). Proof. unfold choice_uniform. repeat bk_q_step. Qed.
+  Lemma q_choice_weighted den P : quiet (choice_weighted den P). Proof. unfold choice_weighted. repeat bk_q_step. Qed.
   Lemma q_choose_next_customer nd : quiet (choose_next_customer cf nd).
-  Proof. unfold choose_next_customer. repeat first [apply q_ncfg_of | apply q_choice_uniform | q_step]. Qed.
-  Lemma q_write_br_record j x ty : quiet (write_br_record j x ty). Proof. unfold write_br_record. repeat q_step. Qed.
+  Proof. unfold choose_next_customer. repeat first [apply q_ncfg_of | apply q_choice_uniform | bk_q_step]. Qed.
+  Lemma q_write_br_record j x ty : quiet (write_br_record j x ty). Proof. unfold write_br_record. repeat bk_q_step. Qed.
   Lemma q_find_next_event_date : quiet find_next_event_date.
   Proof. apply quiet_modify. intros s. destruct (find_min_dates 1 (a_dates (arr s)) (None, 0, 0)) as [[d j] c]. repeat split; reflexivity. Qed.
   Lemma q_find_next_active_node : quiet find_next_active_node.
@@ -1344,15 +1344,15 @@ Section Quiet.
   Qed.
 
   (* what choose_next_customer returns *)
-  Lemma last_In {A} (l : list A) d : In (last l d) (d :: l).
+  Lemma bk_last_In {A} (l : list A) d : In (last l d) (d :: l).
   Proof. revert d; induction l as [|a l IH]; intros d; [left; reflexivity|]. rewrite last_cons. right. apply IH. Qed.
-  Lemma choose_next_customer_spec nd s c s' : choose_next_customer cf nd s = Ok (Some c, s') -> In c (first_waiting (n_queues nd) (inds s)).
+  Lemma bk_choose_next_customer_spec nd s c s' : choose_next_customer cf nd s = Ok (Some c, s') -> In c (first_waiting (n_queues nd) (inds s)).
   Proof.
     unfold choose_next_customer. unfold bind at 1. cbn [gets].
     destruct (first_waiting (n_queues nd) (inds s)) as [|w0 wr]; [intros H; inversion H|].
     unfold bind at 1. destruct (ncfg_of cf (n_id nd) s) as [[nc s1]| |]; try discriminate.
     destruct (nc_disc nc =? 0); [intros H; inversion H; left; reflexivity|].
-    destruct (nc_disc nc =? 1); [intros H; inversion H; apply last_In|].
+    destruct (nc_disc nc =? 1); [intros H; inversion H; apply bk_last_In|].
     unfold bind at 1. destruct (choice_uniform (w0 :: wr) s1) as [[x s2]| |] eqn:E; try discriminate.
     intros H. inversion H. subst x. unfold choice_uniform, bind in E. destruct (draw_unif s1) as [[u s3]| |]; try discriminate.
     destruct (nth_error (w0 :: wr) (rc_uniform (length (w0 :: wr)) u)) as [y|] eqn:En; [|discriminate]. cbn in E. inversion E. subst y.
@@ -1363,7 +1363,7 @@ End Quiet.
 Section Who.
   Variable cf : config.
 
-  Definition Q (fl ex : list Z) (s : sim) : Prop := WFx fl s /\ W cf ex s.
+  Definition WQ (fl ex : list Z) (s : sim) : Prop := WFx fl s /\ Wh cf ex s.
 
   Ltac mstep H :=
     match type of H with
@@ -1372,9 +1372,9 @@ Section Who.
       unfold bind in H at 1; destruct (m s) as [[a s1]| |] eqn:E; [|discriminate H|discriminate H];
       first [ (apply gets_spec in E as [-> ->])
             | (let Hl := fresh "Hl" in apply lift_spec in E as [-> Hl])
-            | (apply is_inf_spec in E as [-> ->])
+            | (apply bk_is_inf_spec in E as [-> ->])
             | (let Hn := fresh "Hn" in apply get_node_spec in E as [-> Hn])
-            | (let Hf := fresh "Hf" in apply get_ind_spec in E as [-> Hf])
+            | (let Hf := fresh "Hf" in apply bk_get_ind_spec in E as [-> Hf])
             | idtac ]
     end.
 
@@ -1382,13 +1382,13 @@ Section Who.
   Proof. intros H j. unfold nodeZ. rewrite H. reflexivity. Qed.
 
   Lemma Q_same fl ex s s' : inds s' = inds s -> nodes s' = nodes s -> a_created (arr s') = a_created (arr s) ->
-    exit_ids s' = exit_ids s -> exit_n s' = exit_n s -> Q fl ex s -> Q fl ex s'.
+    exit_ids s' = exit_ids s -> exit_n s' = exit_n s -> WQ fl ex s -> WQ fl ex s'.
   Proof.
     intros Ei En Ec Ee Ex [HW HWw]. split.
     - eapply WFx_shape; [|exact HW]. unfold shp. rewrite En, Ec, Ee, Ex. reflexivity.
     - apply (W_same cf s s'); [apply nodeZ_eq; exact En|lia|exact HWw|exact Ei].
   Qed.
-  Lemma Q_quiet {A} (m : M A) fl ex s a s' : quiet m -> Q fl ex s -> m s = Ok (a, s') -> Q fl ex s'.
+  Lemma Q_quiet {A} (m : M A) fl ex s a s' : quiet m -> WQ fl ex s -> m s = Ok (a, s') -> WQ fl ex s'.
   Proof. intros Hm HQ H. destruct (Hm _ _ _ H) as (A1 & A2 & A3 & A4 & A5). eapply Q_same; eauto. Qed.
 
   Lemma put_facts nd' nd s s' j : Idx s -> nodeZ s j = Some nd -> put_node nd' s = Ok (tt, s') -> n_id nd' = n_id nd ->
@@ -1397,13 +1397,13 @@ Section Who.
     intros HI Hn H Hid. apply (nodeZ_put nd' s s' j H); [rewrite Hid; exact (Idx_get _ _ _ HI Hn)|eauto].
   Qed.
 
-  Lemma NL_noserver ex s c x : W cf ex s -> find_ind c (inds s) = Some x -> i_server x = None -> NL s c.
+  Lemma NL_noserver ex s c x : Wh cf ex s -> find_ind c (inds s) = Some x -> i_server x = None -> NoLive s c.
   Proof.
     intros HWw Hx Hs j nd sv e Hn Hsv He Hc. destruct (w_live _ _ _ HWw j nd sv e c Hn Hsv He Hc) as (_ & x' & Hx' & _ & Hs'). congruence.
   Qed.
 
   (* a customer of a finite-server node that holds no server is not blocked *)
-  Lemma cand_unblocked fl ex s j nd c xc : Q fl ex s -> nodeZ s j = Some nd -> infb cf j = false -> In c (all_individuals nd) ->
+  Lemma cand_unblocked fl ex s j nd c xc : WQ fl ex s -> nodeZ s j = Some nd -> infb cf j = false -> In c (all_individuals nd) ->
     find_ind c (inds s) = Some xc -> i_server xc = None -> ~ In c ex -> i_blocked xc = false.
   Proof.
     intros [HW HWw] Hn Hinf Hin Hx Hs Hex. destruct (i_blocked xc) eqn:Hb; [exfalso|reflexivity].
@@ -1415,10 +1415,10 @@ Section Who.
   Qed.
 
   (* ---------- start_service ---------- *)
-  Lemma start_service_W j c srv fl ex s s' : Q fl ex s ->
+  Lemma start_service_W j c srv fl ex s s' : WQ fl ex s ->
     (match srv with None => True
-     | Some sv => exists xc, find_ind c (inds s) = Some xc /\ i_blocked xc = false /\ i_server xc = None /\ at_node s j c end) ->
-    start_service j c srv s = Ok (tt, s') -> Q fl ex s'.
+     | Some sv => exists xc, find_ind c (inds s) = Some xc /\ i_blocked xc = false /\ i_server xc = None /\ bk_at_node s j c end) ->
+    start_service j c srv s = Ok (tt, s') -> WQ fl ex s'.
   Proof.
     intros [HW HWw] Hsrv H. split; [eapply WFx_presI; [apply presI_start_service|exact HW|exact H]|].
     unfold start_service in H.
@@ -1427,14 +1427,14 @@ Section Who.
     pose proof (find_ind_id _ _ _ Hf) as Hidx.
     mstep H.
     match goal with E : draw_svc s = Ok (_, ?sa) |- _ => destruct (quiet_draw_svc _ _ _ E) as (Ei1 & En1 & Ec1 & _); rename sa into s1; clear E end.
-    assert (W1 : W cf ex s1) by (apply (W_same cf s s1); [apply nodeZ_eq; exact En1|lia|exact HWw|exact Ei1]).
+    assert (W1 : Wh cf ex s1) by (apply (W_same cf s s1); [apply nodeZ_eq; exact En1|lia|exact HWw|exact Ei1]).
     assert (I1 : Idx s1) by (intros k n Hk; rewrite En1 in Hk; exact (WFx_Idx _ _ HW k n Hk)).
     rewrite <- Ei1 in Hf.
     mstep H.
     match goal with E : put_ind ?x' s1 = Ok (?u, ?sa) |- _ =>
-      destruct u; destruct (put_ind_spec _ _ _ E) as (Ei2 & En2 & Ea2 & _); rename sa into s2; set (x1 := x') in *; clear E end.
+      destruct u; destruct (bk_put_ind_spec _ _ _ E) as (Ei2 & En2 & Ea2 & _); rename sa into s2; set (x1 := x') in *; clear E end.
     assert (I2 : Idx s2) by (intros k n Hk; rewrite En2 in Hk; exact (I1 k n Hk)).
-    assert (W2 : W cf ex s2).
+    assert (W2 : Wh cf ex s2).
     { apply (W_put_ind cf s1 s2 (nodeZ_eq _ _ En2) ltac:(rewrite Ea2; lia) ex ex c x x1 W1 Hf Hidx Ei2).
       - destruct srv as [sv|]; [right|left; split; reflexivity].
         destruct Hsrv as (xc & Hxc & Hb & Hs & _). rewrite <- Ei1, Hf in Hxc. injection Hxc as <-. eapply NL_noserver; eauto.
@@ -1456,27 +1456,27 @@ Section Who.
   Qed.
 
   (* ---------- rewriting the record of a customer ---------- *)
-  (* fields W does not look at *)
-  Lemma put_ind_A fl ex s s' i x x' : Q fl ex s -> find_ind i (inds s) = Some x -> i_id x' = i ->
+  (* fields Wh does not look at *)
+  Lemma put_ind_A fl ex s s' i x x' : WQ fl ex s -> find_ind i (inds s) = Some x -> i_id x' = i ->
     i_blocked x' = i_blocked x -> i_dest x' = i_dest x -> i_server x' = i_server x -> put_ind x' s = Ok (tt, s') ->
-    Q fl ex s' /\ nodes s' = nodes s /\ inds s' = put_ind_l x' (inds s).
+    WQ fl ex s' /\ nodes s' = nodes s /\ inds s' = put_ind_l x' (inds s).
   Proof.
-    intros [HW HWw] Hf Hid Hb Hd Hs H. destruct (put_ind_spec _ _ _ H) as (Ei & En & Ea & Esh). split; [|auto]. split; [eapply WFx_shape; eauto|].
+    intros [HW HWw] Hf Hid Hb Hd Hs H. destruct (bk_put_ind_spec _ _ _ H) as (Ei & En & Ea & Esh). split; [|auto]. split; [eapply WFx_shape; eauto|].
     apply (W_put_ind cf s s' (nodeZ_eq _ _ En) ltac:(rewrite Ea; lia) ex ex i x x' HWw Hf Hid Ei); auto.
     intros Hbx. rewrite Hb in Hbx. destruct (w_blk _ _ _ HWw x (find_In _ _ _ Hf) Hbx) as [E1|E1]; rewrite (find_ind_id _ _ _ Hf) in E1; auto.
   Qed.
   (* any field, for a customer who is in no blocked queue and nobody's live customer *)
-  Lemma put_ind_B fl ex ex' s s' i x x' : Q fl ex s -> find_ind i (inds s) = Some x -> i_id x' = i -> NL s i -> N0 s i ->
+  Lemma put_ind_B fl ex ex' s s' i x x' : WQ fl ex s -> find_ind i (inds s) = Some x -> i_id x' = i -> NoLive s i -> NoEntry s i ->
     (forall y, In y ex -> y <> i -> In y ex') -> (i_blocked x' = true -> In i ex') -> put_ind x' s = Ok (tt, s') ->
-    Q fl ex' s' /\ nodes s' = nodes s /\ inds s' = put_ind_l x' (inds s).
+    WQ fl ex' s' /\ nodes s' = nodes s /\ inds s' = put_ind_l x' (inds s).
   Proof.
-    intros [HW HWw] Hf Hid HNL HN0 Hex Hb H. destruct (put_ind_spec _ _ _ H) as (Ei & En & Ea & Esh). split; [|auto]. split; [eapply WFx_shape; eauto|].
+    intros [HW HWw] Hf Hid HNL HN0 Hex Hb H. destruct (bk_put_ind_spec _ _ _ H) as (Ei & En & Ea & Esh). split; [|auto]. split; [eapply WFx_shape; eauto|].
     apply (W_put_ind cf s s' (nodeZ_eq _ _ En) ltac:(rewrite Ea; lia) ex ex' i x x' HWw Hf Hid Ei); auto.
   Qed.
 
   (* ---------- begin_service_if_possible ---------- *)
-  Lemma bsip_release_W j freed fl ex s s' : Q fl ex s -> (forall c, In c ex -> ~ at_node s j c) -> (freed <> None -> infb cf j = false) ->
-    begin_service_if_possible_release cf j freed s = Ok (tt, s') -> Q fl ex s'.
+  Lemma bsip_release_W j freed fl ex s s' : WQ fl ex s -> (forall c, In c ex -> ~ bk_at_node s j c) -> (freed <> None -> infb cf j = false) ->
+    begin_service_if_possible_release cf j freed s = Ok (tt, s') -> WQ fl ex s'.
   Proof.
     intros HQ Hex Hinf H. unfold begin_service_if_possible_release in H.
     destruct freed as [sid|]; [|apply ret_spec in H as [-> _]; exact HQ]. specialize (Hinf ltac:(discriminate)).
@@ -1486,15 +1486,15 @@ Section Who.
     mstep H.
     match goal with E : choose_next_customer cf nd s = Ok (?cand, ?sa) |- _ => rename E into Ech; rename sa into s1; destruct cand as [c|] end;
       [|apply ret_spec in H as [-> _]; exact (Q_quiet _ _ _ _ _ _ (q_choose_next_customer cf nd) HQ Ech)].
-    pose proof (choose_next_customer_spec cf nd s c s1 Ech) as Hc. apply first_waiting_spec in Hc as (Hin & xc & Hxc & Hs).
+    pose proof (bk_choose_next_customer_spec cf nd s c s1 Ech) as Hc. apply bk_first_waiting_spec in Hc as (Hin & xc & Hxc & Hs).
     destruct (q_choose_next_customer cf nd _ _ _ Ech) as (Ei & En & _).
     eapply start_service_W; [exact (Q_quiet _ _ _ _ _ _ (q_choose_next_customer cf nd) HQ Ech)| |exact H].
     exists xc. rewrite Ei. split; [exact Hxc|]. split; [|split; [exact Hs|exists nd; unfold nodeZ; rewrite En; auto]].
     eapply cand_unblocked; eauto. intros Hc. apply (Hex c Hc). exists nd. auto.
   Qed.
 
-  Lemma bsip_accept_W j i fl ex s s' : Q fl ex s -> (forall c, In c ex -> ~ at_node s j c) ->
-    begin_service_if_possible_accept cf j i s = Ok (tt, s') -> Q fl ex s'.
+  Lemma bsip_accept_W j i fl ex s s' : WQ fl ex s -> (forall c, In c ex -> ~ bk_at_node s j c) ->
+    begin_service_if_possible_accept cf j i s = Ok (tt, s') -> WQ fl ex s'.
   Proof.
     intros HQ Hex H. unfold begin_service_if_possible_accept in H.
     mstep H. mstep H.
@@ -1502,7 +1502,7 @@ Section Who.
     mstep H.
     match goal with E : put_ind ?x' s = Ok (?u, ?sa) |- _ =>
       destruct u; destruct (put_ind_A fl ex s sa i x x' HQ Hf (find_ind_id _ _ _ Hf) eq_refl eq_refl eq_refl E) as (HQ1 & En1 & Ei1); rename sa into s1; clear E end.
-    assert (Hex1 : forall c, In c ex -> ~ at_node s1 j c) by (intros c Hc (n & Hn' & Hin); apply (Hex c Hc); exists n; unfold nodeZ in *; rewrite <- En1; auto).
+    assert (Hex1 : forall c, In c ex -> ~ bk_at_node s1 j c) by (intros c Hc (n & Hn' & Hin); apply (Hex c Hc); exists n; unfold nodeZ in *; rewrite <- En1; auto).
     mstep H. mstep H.
     match goal with Hx : nthZ (nodes s1) (j - 1) = Some ?ndx |- _ => rename ndx into nd; rename Hx into Hn end.
     mstep H. revert H. match goal with E : _ s1 = Ok (?cand, ?sa) |- _ => rename E into Ech; rename sa into s2; rename cand into cnd; revert Ech end.
@@ -1510,7 +1510,7 @@ Section Who.
     - apply ret_spec in Ech as [-> ->]. exact (start_service_W j i None fl ex _ s' HQ1 I H).
     - destruct cnd as [c|]; [|apply ret_spec in H as [-> _]; exact (Q_quiet _ _ _ _ _ _ (q_choose_next_customer cf nd) HQ1 Ech)].
       destruct (find_free_server (n_servers nd)) as [sv|]; [|apply ret_spec in H as [-> _]; exact (Q_quiet _ _ _ _ _ _ (q_choose_next_customer cf nd) HQ1 Ech)].
-      pose proof (choose_next_customer_spec cf nd s1 c s2 Ech) as Hc. apply first_waiting_spec in Hc as (Hin & xc & Hxc & Hs).
+      pose proof (bk_choose_next_customer_spec cf nd s1 c s2 Ech) as Hc. apply bk_first_waiting_spec in Hc as (Hin & xc & Hxc & Hs).
       destruct (q_choose_next_customer cf nd _ _ _ Ech) as (Ei & En & _).
       eapply start_service_W; [exact (Q_quiet _ _ _ _ _ _ (q_choose_next_customer cf nd) HQ1 Ech)| |exact H].
       exists xc. rewrite Ei. split; [exact Hxc|]. split; [|split; [exact Hs|exists nd; unfold nodeZ; rewrite En; auto]].
@@ -1532,23 +1532,23 @@ Section Who.
   Qed.
 
   (* a record for the customer in flight, whether or not the table has one already *)
-  Lemma put_ind_flight fl ex s s' x' : Q (i_id x' :: fl) ex s -> N0 s (i_id x') -> (forall y, In y ex -> y = i_id x') -> i_blocked x' = false ->
-    put_ind x' s = Ok (tt, s') -> Q (i_id x' :: fl) [] s' /\ nodes s' = nodes s.
+  Lemma put_ind_flight fl ex s s' x' : WQ (i_id x' :: fl) ex s -> NoEntry s (i_id x') -> (forall y, In y ex -> y = i_id x') -> i_blocked x' = false ->
+    put_ind x' s = Ok (tt, s') -> WQ (i_id x' :: fl) [] s' /\ nodes s' = nodes s.
   Proof.
     intros HQ HN0 Hex Hb H. destruct (find_ind (i_id x') (inds s)) as [x0|] eqn:Hx0.
     - destruct (put_ind_B (i_id x' :: fl) ex [] s s' (i_id x') x0 x' HQ Hx0 eq_refl (NL_inflight _ _ _ _ _ (proj1 HQ) (proj2 HQ)) HN0
                   ltac:(intros y Hy Hne; exfalso; exact (Hne (Hex y Hy))) ltac:(congruence) H) as (HQ1 & En1 & _). auto.
-    - destruct (put_ind_spec _ _ _ H) as (Ei & En & Ea & Esh). split; [|exact En]. split; [eapply WFx_shape; [exact Esh|exact (proj1 HQ)]|].
+    - destruct (bk_put_ind_spec _ _ _ H) as (Ei & En & Ea & Esh). split; [|exact En]. split; [eapply WFx_shape; [exact Esh|exact (proj1 HQ)]|].
       eapply W_ex_mono with (ex := []); [intros y []|].
-      assert (W0 : W cf [] s).
-      { destruct (proj2 HQ) as [A B C D E F G Hnf]. constructor; auto. intros y Hy Hby. destruct (E y Hy Hby) as [E1|E1]; [|auto].
+      assert (W0 : Wh cf [] s).
+      { destruct (proj2 HQ) as [A B C D E F Gv Hnf]. constructor; auto. intros y Hy Hby. destruct (E y Hy Hby) as [E1|E1]; [|auto].
         exfalso. apply Hex in E1. exact (find_None _ _ Hx0 y Hy E1). }
       apply (W_put_new cf s s' (nodeZ_eq _ _ En) ltac:(rewrite Ea; lia) [] x' W0 Hx0 Ei); [|exact Hb].
       rewrite Ea. exact (WFx_inflight_le _ _ _ (proj1 HQ)).
   Qed.
 
-  Lemma accept_W d x fl ex s s' : Q (i_id x :: fl) ex s -> N0 s (i_id x) ->
-    (forall y, In y ex -> y = i_id x) -> accept cf d x s = Ok (tt, s') -> Q fl [] s'.
+  Lemma accept_W d x fl ex s s' : WQ (i_id x :: fl) ex s -> NoEntry s (i_id x) ->
+    (forall y, In y ex -> y = i_id x) -> accept cf d x s = Ok (tt, s') -> WQ fl [] s'.
   Proof.
     intros HQ HN0 Hex H. pose proof (accept_spec cf d x fl s s' (proj1 HQ) H) as HW'.
     unfold accept in H.
@@ -1566,7 +1566,7 @@ Section Who.
     pose proof (WFx_Idx _ _ (proj1 HQ1)) as I1.
     destruct (put_facts _ nd s1 s2 d I1 Hn1 Eput eq_refl) as (Hput & Ei2 & Ea2).
     assert (I2 : Idx s2) by (eapply Idx_put; [exact Eput|exact I1|cbn; rewrite (Idx_get _ _ _ I1 Hn1); eauto]).
-    assert (W2 : W cf [] s2).
+    assert (W2 : Wh cf [] s2).
     { eapply (W_node_q cf s1 s2 d nd _ Hn1 Hput Ei2 ltac:(rewrite Ea2; lia) []); [reflexivity|reflexivity| |exact (proj2 HQ1)].
       intros y Hy. right. unfold all_individuals in *. cbn. rewrite <- Hqs. eapply In_concat_updZ_snoc; eauto. }
     assert (X2 : WFx fl s2).
@@ -1574,19 +1574,19 @@ Section Who.
     eapply bsip_accept_W; [split; [exact X2|exact W2]|intros c []|exact H].
   Qed.
 
-  Lemma exit_accept_W x c fl ex s s' : Q (i_id x :: fl) ex s -> N0 s (i_id x) -> (forall y, In y ex -> y = i_id x) ->
-    exit_accept x c s = Ok (tt, s') -> Q fl [] s'.
+  Lemma exit_accept_W x c fl ex s s' : WQ (i_id x :: fl) ex s -> NoEntry s (i_id x) -> (forall y, In y ex -> y = i_id x) ->
+    exit_accept x c s = Ok (tt, s') -> WQ fl [] s'.
   Proof.
     intros HQ HN0 Hex H. split; [exact (exit_accept_spec x c fl s s' (proj1 HQ) H)|].
     unfold exit_accept, bind, del_ind, modify in H. injection H as <-.
     set (s0 := s <| inds := del_ind_l (i_id x) (inds s) |>).
-    match goal with |- W cf [] ?sb => apply (W_same cf s0 sb); [intros; reflexivity|cbn; lia| |reflexivity] end.
+    match goal with |- Wh cf [] ?sb => apply (W_same cf s0 sb); [intros; reflexivity|cbn; lia| |reflexivity] end.
     apply (W_del_ind cf s s0 ltac:(intros; reflexivity) ltac:(cbn; lia) ex [] (i_id x) (proj2 HQ) eq_refl HN0 (NL_inflight _ _ _ _ _ (proj1 HQ) (proj2 HQ))).
     intros y Hy Hne. exfalso. exact (Hne (Hex y Hy)).
   Qed.
 
-  Lemma write_record_W j x fl ex s s' : Q fl ex s -> find_ind (i_id x) (inds s) = Some x -> write_individual_record cf j x s = Ok (tt, s') ->
-    Q fl ex s' /\ nodes s' = nodes s /\ inds s' = put_ind_l (x <| i_nrec := i_nrec x + 1 |>) (inds s).
+  Lemma write_record_W j x fl ex s s' : WQ fl ex s -> find_ind (i_id x) (inds s) = Some x -> write_individual_record cf j x s = Ok (tt, s') ->
+    WQ fl ex s' /\ nodes s' = nodes s /\ inds s' = put_ind_l (x <| i_nrec := i_nrec x + 1 |>) (inds s).
   Proof.
     intros HQ Hf H. unfold write_individual_record in H. mstep H. mstep H.
     match goal with E : log_rec _ s = Ok (_, ?sa) |- _ =>
@@ -1597,13 +1597,13 @@ Section Who.
   Qed.
 
   Lemma N0_put s s' j nd nd' i : nodeZ s j = Some nd -> (forall j', nodeZ s' j' = if j' =? j then Some nd' else nodeZ s j') ->
-    n_bq nd' = n_bq nd -> N0 s i -> N0 s' i.
+    n_bq nd' = n_bq nd -> NoEntry s i -> NoEntry s' i.
   Proof.
     intros Hn Hput Hb. apply N0_nodes. intros j'. rewrite Hput. destruct (Z.eqb_spec j' j) as [->|_]; [rewrite Hn; cbn; rewrite Hb|]; reflexivity.
   Qed.
 
   (* ---------- release and the cascade ---------- *)
-  Lemma release_W : forall f j i d s s', Q [] [i] s -> N0 s i -> NL s i -> release cf f j i d s = Ok (tt, s') -> Q [] [] s'.
+  Lemma release_W : forall f j i d s s', WQ [] [i] s -> NoEntry s i -> NoLive s i -> release cf f j i d s = Ok (tt, s') -> WQ [] [] s'.
   Proof.
     induction f as [|f IH]; intros j i d s s' HQ HN0 HNL H; [discriminate|].
     cbn [release] in H.
@@ -1625,31 +1625,31 @@ Section Who.
       assert (Hsh := shp_put_node _ _ _ k nd Eput ltac:(cbn; lia) Hnk).
       unfold WFx. rewrite Hsh. destruct HQ as [HW _]. unfold WFx, shp in HW.
       eapply WFsh_rm; [exact HW|rewrite nth_error_map, Hnk; reflexivity|reflexivity|reflexivity|]. cbn. symmetry. exact Hperm. }
-    assert (W0 : W cf [i] s0).
+    assert (W0 : Wh cf [i] s0).
     { eapply (W_node_q cf s s0 j nd nd1 Hn Hput Ei0 ltac:(rewrite Ea0; lia) [i]); [reflexivity|reflexivity| |exact (proj2 HQ)].
       intros y Hy. destruct (Z.eq_dec y i) as [->|Hne]; [left; auto|right].
       apply (Permutation_in _ (Permutation_sym Hperm)) in Hy. destruct Hy as [Hy|Hy]; [congruence|exact Hy]. }
-    assert (N0a : N0 s0 i) by (eapply N0_put; [exact Hn|exact Hput|reflexivity|exact HN0]).
+    assert (N0a : NoEntry s0 i) by (eapply N0_put; [exact Hn|exact Hput|reflexivity|exact HN0]).
     rewrite <- Ei0 in Hf. clear HQ HN0 HNL.
-    assert (HQ0 : Q [i] [i] s0) by (split; assumption). clear X0 W0.
+    assert (HQ0 : WQ [i] [i] s0) by (split; assumption). clear X0 W0.
     (* its record *)
     mstep H.
     match goal with E : put_ind ?x' s0 = Ok (?u, ?sa) |- _ =>
       destruct u; set (x1 := x') in *;
       destruct (put_ind_B [i] [i] [i] s0 sa i x x1 HQ0 Hf (find_ind_id _ _ _ Hf) (NL_inflight _ _ _ _ _ (proj1 HQ0) (proj2 HQ0)) N0a
                   ltac:(auto) ltac:(intros; left; reflexivity) E) as (HQ1 & En1 & Ei1); rename sa into s1; clear E end.
-    assert (N1a : N0 s1 i) by (eapply N0_nodes; [|exact N0a]; intros j'; rewrite (nodeZ_eq _ _ En1); reflexivity).
+    assert (N1a : NoEntry s1 i) by (eapply N0_nodes; [|exact N0a]; intros j'; rewrite (nodeZ_eq _ _ En1); reflexivity).
     assert (Hid1 : i_id x1 = i) by exact (find_ind_id _ _ _ Hf).
     assert (Hf1 : find_ind (i_id x1) (inds s1) = Some x1) by (rewrite Ei1; apply find_put_same).
     mstep H.
     match goal with E : write_individual_record cf j x1 s1 = Ok (?u, ?sa) |- _ =>
       destruct u; destruct (write_record_W j x1 [i] [i] s1 sa HQ1 Hf1 E) as (HQ2 & En2 & Ei2); rename sa into s2; clear E end.
-    assert (N2a : N0 s2 i) by (eapply N0_nodes; [|exact N1a]; intros j'; rewrite (nodeZ_eq _ _ En2); reflexivity).
+    assert (N2a : NoEntry s2 i) by (eapply N0_nodes; [|exact N1a]; intros j'; rewrite (nodeZ_eq _ _ En2); reflexivity).
     mstep H.
     (* its server is freed *)
     mstep H.
     match goal with E : (if infb cf j then _ else _) s2 = Ok (?fr, ?sa) |- _ => rename fr into freed; rename sa into s3; rename E into Efree end.
-    assert (F3 : Q [i] [i] s3 /\ N0 s3 i /\ (freed <> None -> infb cf j = false) /\ inds s3 = inds s2).
+    assert (F3 : WQ [i] [i] s3 /\ NoEntry s3 i /\ (freed <> None -> infb cf j = false) /\ inds s3 = inds s2).
     { revert Efree. destruct (infb cf j) eqn:Einf; intros Efree.
       - apply ret_spec in Efree as [-> ->]. split; [exact HQ2|]. split; [exact N2a|]. split; [intros Hx; exfalso; apply Hx; reflexivity|reflexivity].
       - mstep Efree. mstep Efree. mstep Efree. mstep Efree. mstep Efree.
@@ -1671,18 +1671,18 @@ Section Who.
       destruct u; set (x3 := x') in *;
       destruct (put_ind_B [i] [i] [i] s3 sa i x2 x3 HQ3 Hf3 (find_ind_id _ _ _ Hf3) (NL_inflight _ _ _ _ _ (proj1 HQ3) (proj2 HQ3)) N3a
                   ltac:(auto) ltac:(intros; left; reflexivity) E) as (HQ4 & En4 & Ei4); rename sa into s4; clear E end.
-    assert (N4a : N0 s4 i) by (eapply N0_nodes; [|exact N3a]; intros j'; rewrite (nodeZ_eq _ _ En4); reflexivity).
+    assert (N4a : NoEntry s4 i) by (eapply N0_nodes; [|exact N3a]; intros j'; rewrite (nodeZ_eq _ _ En4); reflexivity).
     assert (Hid3 : i_id x3 = i) by exact (find_ind_id _ _ _ Hf3).
     (* the freed server takes the next customer *)
     mstep H.
     match goal with E : begin_service_if_possible_release cf j freed s4 = Ok (?u, ?sa) |- _ => destruct u; rename sa into s5; rename E into Eb end.
-    assert (HQ5 : Q [i] [i] s5).
+    assert (HQ5 : WQ [i] [i] s5).
     { eapply bsip_release_W; [exact HQ4| |exact Hfinf|exact Eb]. intros c [<-|[]] (n & Hnn & Hin). exact (WFx_inflight _ _ _ _ _ (proj1 HQ4) Hnn Hin). }
-    assert (N5a : N0 s5 i) by (eapply N0_BV; [|exact N4a]; exact (k_bsip_release cf j freed _ _ _ (WFx_Idx _ _ (proj1 HQ4)) Eb)).
+    assert (N5a : NoEntry s5 i) by (eapply N0_BV; [|exact N4a]; exact (bk_k_bsip_release cf j freed _ _ _ (WFx_Idx _ _ (proj1 HQ4)) Eb)).
     (* the customer lands *)
     mstep H.
     match goal with E : (if d =? 0 then _ else _) s5 = Ok (?u, ?sa) |- _ => destruct u; rename sa into s6; rename E into EL end.
-    assert (HQ6 : Q [] [] s6).
+    assert (HQ6 : WQ [] [] s6).
     { rewrite <- Hid3 in HQ5, N5a. destruct (d =? 0).
       - eapply exit_accept_W; [exact HQ5|exact N5a| |exact EL]. intros y [<-|[]]. reflexivity.
       - eapply accept_W; [exact HQ5|exact N5a| |exact EL]. intros y [<-|[]]. reflexivity. }
@@ -1701,7 +1701,7 @@ Section Who.
     destruct (put_facts _ nd3 s6 sP j I6 Hn3 Eput7 eq_refl) as (Hput7 & Ei7 & Ea7).
     assert (He : entry s6 j from y) by (exists nd3; rewrite Ebq; split; [exact Hn3|left; reflexivity]).
     destruct (w_ent _ _ _ (proj2 HQ6) j from y He) as (xy & Hxy & Hby & Hdy & _ & _).
-    assert (W7 : W cf [y] sP).
+    assert (W7 : Wh cf [y] sP).
     { apply (W_node_pop cf s6 sP j nd3 _ Hn3 Hput7 Ei7 ltac:(rewrite Ea7; lia) [] (from, y) rest); [reflexivity|reflexivity|exact Ebq|reflexivity|exact (proj2 HQ6)]. }
     assert (X7 : WFx [] sP).
     { eapply WFx_shape; [|exact (proj1 HQ6)]. eapply put_node_shape; [exact Eput7|cbn; rewrite (Idx_get _ _ _ I6 Hn3); exact Hn3|reflexivity]. }
@@ -1715,7 +1715,7 @@ Section Who.
 End Who.
 
 (* the customers listed as "next to finish" are customers of the node that are not blocked (holds between events) *)
-Definition N1 (s : sim) : Prop :=
+Definition NextOk (s : sim) : Prop :=
   forall j nd i, nodeZ s j = Some nd -> In i (n_next_inds nd) ->
     In i (all_individuals nd) /\ exists x, find_ind i (inds s) = Some x /\ i_blocked x = false.
 
@@ -1729,9 +1729,9 @@ Section Who2.
       unfold bind in H at 1; destruct (m s) as [[a s1]| |] eqn:E; [|discriminate H|discriminate H];
       first [ (apply gets_spec in E as [-> ->])
             | (let Hl := fresh "Hl" in apply lift_spec in E as [-> Hl])
-            | (apply is_inf_spec in E as [-> ->])
+            | (apply bk_is_inf_spec in E as [-> ->])
             | (let Hn := fresh "Hn" in apply get_node_spec in E as [-> Hn])
-            | (let Hf := fresh "Hf" in apply get_ind_spec in E as [-> Hf])
+            | (let Hf := fresh "Hf" in apply bk_get_ind_spec in E as [-> Hf])
             | idtac ]
     end.
 
@@ -1745,7 +1745,7 @@ Section Who2.
   Qed.
 
   (* ---------- finish_service ---------- *)
-  Lemma finish_service_W j s s' : Q cf [] [] s -> N1 s -> finish_service cf j s = Ok (tt, s') -> Q cf [] [] s'.
+  Lemma finish_service_W j s s' : WQ cf [] [] s -> NextOk s -> finish_service cf j s = Ok (tt, s') -> WQ cf [] [] s'.
   Proof.
     intros HQ HN1 H. unfold finish_service in H.
     mstep H.
@@ -1754,20 +1754,20 @@ Section Who2.
     match goal with E : _ s = Ok (?ii, ?sa) |- _ => rename ii into i; rename sa into sA; rename E into Epick end.
     pose proof (pick_In _ _ _ _ Epick) as Hi.
     destruct (HN1 j nd i Hn Hi) as (Hin & x0 & Hx0 & Hb0).
-    assert (QA : Q cf [] [] sA /\ inds sA = inds s /\ nodes sA = nodes s).
-    { match type of Epick with ?m s = _ => assert (Hq : quiet m) by (repeat first [apply q_choice_uniform | q_step]) end.
+    assert (QA : WQ cf [] [] sA /\ inds sA = inds s /\ nodes sA = nodes s).
+    { match type of Epick with ?m s = _ => assert (Hq : quiet m) by (repeat first [apply q_choice_uniform | bk_q_step]) end.
       destruct (Hq _ _ _ Epick) as (A1 & A2 & _). split; [exact (Q_quiet cf _ _ _ _ _ _ Hq HQ Epick)|auto]. }
     destruct QA as (HQA & EiA & EnA). clear Epick HQ.
     mstep H.
     match goal with Hx : find_ind i (inds sA) = Some ?xx |- _ => rename xx into x; rename Hx into Hf end.
     assert (x = x0) by (rewrite EiA in Hf; congruence). subst x.
-    assert (AtA : at_node sA j i) by (exists nd; unfold nodeZ; rewrite EnA; auto).
+    assert (AtA : bk_at_node sA j i) by (exists nd; unfold nodeZ; rewrite EnA; auto).
     clear Hx0 HN1 Hi Hn Hin EiA EnA.
     mstep H.
     (* change_customer_class *)
     mstep H.
     match goal with E : _ sA = Ok (?xx, ?sa) |- _ => rename xx into x1; rename sa into sB; rename E into Ecc end.
-    assert (CB : Q cf [] [] sB /\ inds sB = inds sA /\ nodes sB = nodes sA /\ i_id x1 = i /\ i_blocked x1 = false /\ i_server x1 = i_server x0).
+    assert (CB : WQ cf [] [] sB /\ inds sB = inds sA /\ nodes sB = nodes sA /\ i_id x1 = i /\ i_blocked x1 = false /\ i_server x1 = i_server x0).
     { pose proof (find_ind_id _ _ _ Hf) as Hid0. revert Ecc.
       match goal with |- match nc_ccm ?ncx with _ => _ end _ = _ -> _ => destruct (nc_ccm ncx) as [m|]; intros Ecc end.
       - mstep Ecc. mstep Ecc.
@@ -1778,33 +1778,33 @@ Section Who2.
       - apply ret_spec in Ecc as [-> ->].
         split; [exact HQA|]. split; [reflexivity|]. split; [reflexivity|]. split; [exact Hid0|]. split; [exact Hb0|reflexivity]. }
     destruct CB as (HQB & EiB & EnB & Hid1 & Hb1 & Hs1). clear Ecc HQA.
-    rewrite <- EiB in Hf. assert (AtB : at_node sB j i) by (destruct AtA as (n & A1 & A2); exists n; unfold nodeZ in *; rewrite EnB; auto). clear AtA EiB EnB.
+    rewrite <- EiB in Hf. assert (AtB : bk_at_node sB j i) by (destruct AtA as (n & A1 & A2); exists n; unfold nodeZ in *; rewrite EnB; auto). clear AtA EiB EnB.
     mstep H. mstep H.
     mstep H.
     match goal with E : choice_weighted _ _ sB = Ok (?kk, ?sa) |- _ =>
       destruct (q_choice_weighted _ _ _ _ _ E) as (EiC & EnC & _); pose proof (Q_quiet cf _ _ _ _ _ _ (q_choice_weighted _ _) HQB E) as HQC;
       rename kk into k; rename sa into sC; clear E end.
-    rewrite <- EiC in Hf. assert (AtC : at_node sC j i) by (destruct AtB as (n & A1 & A2); exists n; unfold nodeZ in *; rewrite EnC; auto). clear AtB EiC EnC HQB.
+    rewrite <- EiC in Hf. assert (AtC : bk_at_node sC j i) by (destruct AtB as (n & A1 & A2); exists n; unfold nodeZ in *; rewrite EnC; auto). clear AtB EiC EnC HQB.
     match type of H with context [if Nat.ltb k (length ?row) then ?u else ?v] => set (D := if Nat.ltb k (length row) then u else v) in * end.
     (* the destination is recorded *)
     mstep H.
     match goal with E : put_ind ?x' sC = Ok (?u, ?sa) |- _ => destruct u; set (x2 := x') in *; rename sa into sD; rename E into Eput end.
-    assert (N0C : N0 sC i) by (eapply N0_unblocked; [exact (proj2 HQC)|exact Hf|exact Hb0]).
-    assert (DD : Q cf [] [] sD /\ nodes sD = nodes sC /\ inds sD = put_ind_l x2 (inds sC)).
-    { destruct (put_ind_spec _ _ _ Eput) as (Ei & En & Ea & Esh). split; [|auto]. split; [eapply WFx_shape; [exact Esh|exact (proj1 HQC)]|].
+    assert (N0C : NoEntry sC i) by (eapply N0_unblocked; [exact (proj2 HQC)|exact Hf|exact Hb0]).
+    assert (DD : WQ cf [] [] sD /\ nodes sD = nodes sC /\ inds sD = put_ind_l x2 (inds sC)).
+    { destruct (bk_put_ind_spec _ _ _ Eput) as (Ei & En & Ea & Esh). split; [|auto]. split; [eapply WFx_shape; [exact Esh|exact (proj1 HQC)]|].
       apply (W_put_ind cf sC sD (nodeZ_eq _ _ En) ltac:(rewrite Ea; lia) [] [] i x0 x2 (proj2 HQC) Hf Hid1 Ei); auto.
       - left. split; [change (i_blocked x1 = i_blocked x0); congruence|exact Hs1].
       - intros Hb. change (i_blocked x1 = true) in Hb. congruence. }
     destruct DD as (HQD & EnD & EiD). clear Eput.
     assert (HfD : find_ind i (inds sD) = Some x2) by (rewrite EiD; rewrite <- Hid1 at 1; change (i_id x1) with (i_id x2); apply find_put_same).
-    assert (N0D : N0 sD i) by (eapply N0_nodes; [|exact N0C]; intros j'; rewrite (nodeZ_eq _ _ EnD); reflexivity).
-    assert (AtD : at_node sD j i) by (destruct AtC as (n & A1 & A2); exists n; unfold nodeZ in *; rewrite EnD; auto).
+    assert (N0D : NoEntry sD i) by (eapply N0_nodes; [|exact N0C]; intros j'; rewrite (nodeZ_eq _ _ EnD); reflexivity).
+    assert (AtD : bk_at_node sD j i) by (destruct AtC as (n & A1 & A2); exists n; unfold nodeZ in *; rewrite EnD; auto).
     clear AtC N0C HQC Hf EnD EiD.
     mstep H.
     (* the server's end-of-service date is erased *)
     mstep H.
     match goal with E : (if infb cf j then _ else _) sD = Ok (?u, ?sa) |- _ => destruct u; rename sa into sE; rename E into Esv end.
-    assert (EE : Q cf [] [] sE /\ inds sE = inds sD /\ N0 sE i /\ at_node sE j i /\ NL sE i /\ (infb cf j = true \/ i_server x2 <> None)).
+    assert (EE : WQ cf [] [] sE /\ inds sE = inds sD /\ NoEntry sE i /\ bk_at_node sE j i /\ NoLive sE i /\ (infb cf j = true \/ i_server x2 <> None)).
     { destruct AtD as (ndD & HnD & HinD). revert Esv. destruct (infb cf j) eqn:Einf; intros Esv.
       - apply ret_spec in Esv as [-> _]. split; [exact HQD|]. split; [reflexivity|]. split; [exact N0D|]. split; [exists ndD; auto|]. split; [|left; reflexivity].
         intros j' n sv e Hn' Hsv He Hc. destruct (w_live _ _ _ (proj2 HQD) j' n sv e i Hn' Hsv He Hc) as (Hin' & _).
@@ -1817,7 +1817,7 @@ Section Who2.
         assert (nd1 = ndD) by (unfold nodeZ in HnD; congruence). subst nd1.
         pose proof (WFx_Idx _ _ (proj1 HQD)) as ID.
         destruct (put_facts _ ndD sD sE j ID HnD Esv eq_refl) as (Hput & EiE & EaE).
-        assert (WE : W cf [] sE).
+        assert (WE : Wh cf [] sE).
         { eapply (W_node_sv cf sD sE j ndD _ HnD Hput EiE ltac:(rewrite EaE; lia) []); [reflexivity|reflexivity|reflexivity| |exact (proj2 HQD)].
           intros e c He. cbn in He. discriminate He. }
         assert (XE : WFx [] sE).
@@ -1829,7 +1829,7 @@ Section Who2.
         assert (HnE : nodeZ sE j = Some (ndD <| n_servers := put_server_l (svf <| sv_next_end := None |>) (n_servers ndD) |>)) by (rewrite Hput, Z.eqb_refl; reflexivity).
         assert (j' = j) by (eapply WFx_place; [exact XE|exact Hn'|exact HnE|exact Hin'|exact HinD]). subst j'.
         rewrite HnE in Hn'. injection Hn' as <-. cbn in Hsv.
-        destruct (find_server_In _ _ _ Hfs) as (_ & Hsvid).
+        destruct (bk_find_server_In _ _ _ Hfs) as (_ & Hsvid).
         apply (In_put_server _ _ _ (w_svnd _ _ _ (proj2 HQD) j ndD HnD)) in Hsv as [->|[_ Hne]]; [cbn in He; discriminate He|].
         cbn in Hne. congruence. }
     destruct EE as (HQE & EiE & N0E & AtE & NLE & Hsrv). clear Esv HQD N0D AtD.
@@ -1872,27 +1872,27 @@ Section Who2.
   (* ---------- arrivals ---------- *)
   Lemma modify_spec (f : sim -> sim) s a s' : modify f s = Ok (a, s') -> s' = f s.
   Proof. unfold modify. intros H. inversion H. reflexivity. Qed.
-  Lemma N0_same s s' i : nodes s' = nodes s -> N0 s i -> N0 s' i.
+  Lemma N0_same s s' i : nodes s' = nodes s -> NoEntry s i -> NoEntry s' i.
   Proof. intros En. apply N0_nodes. intros j. rewrite (nodeZ_eq _ _ En). reflexivity. Qed.
 
-  Lemma release_individual_W j x s s' : Q cf [i_id x] [] s -> find_ind (i_id x) (inds s) = None -> i_blocked x = false ->
-    release_individual cf j x s = Ok (tt, s') -> Q cf [] [] s'.
+  Lemma release_individual_W j x s s' : WQ cf [i_id x] [] s -> find_ind (i_id x) (inds s) = None -> i_blocked x = false ->
+    release_individual cf j x s = Ok (tt, s') -> WQ cf [] [] s'.
   Proof.
     intros HQ Hnone Hb H. unfold release_individual in H.
-    assert (HN0 : N0 s (i_id x)).
+    assert (HN0 : NoEntry s (i_id x)).
     { intros d from He. destruct (w_ent _ _ _ (proj2 HQ) d from _ He) as (xy & Hxy & _). congruence. }
     mstep H. mstep H. mstep H.
     mstep H.
     match goal with E : put_ind x s = Ok (?u, ?sa) |- _ =>
       destruct u; destruct (put_ind_flight cf [] [] s sa x HQ HN0 ltac:(intros y []) Hb E) as (HQ1 & En1); rename sa into s1; clear E end.
     pose proof (N0_same _ _ _ En1 HN0) as N1a. clear HQ HN0 Hnone.
-    assert (Hrej : forall ty sa, Q cf [i_id x] [] sa -> N0 sa (i_id x) -> (write_br_record j x ty;;; exit_accept x false) sa = Ok (tt, s') -> Q cf [] [] s').
+    assert (Hrej : forall ty sa, WQ cf [i_id x] [] sa -> NoEntry sa (i_id x) -> (write_br_record j x ty;;; exit_accept x false) sa = Ok (tt, s') -> WQ cf [] [] s').
     { intros ty sa HQa HNa Ha. mstep Ha.
       match goal with E : write_br_record _ _ _ sa = Ok (_, ?sb) |- _ =>
         destruct (q_write_br_record _ _ _ _ _ _ E) as (_ & En & _); pose proof (Q_quiet cf _ _ _ _ _ _ (q_write_br_record _ _ _) HQa E) as HQb end.
       eapply (exit_accept_W cf x false [] []); [exact HQb|eapply N0_same; eauto|intros y []|exact Ha]. }
-    assert (Hacc : forall sa, Q cf [i_id x] [] sa -> N0 sa (i_id x) ->
-                     (modify (fun s => s <| arr := arr s <| a_accepted := a_accepted (arr s) + 1 |> |>);;; accept cf j x) sa = Ok (tt, s') -> Q cf [] [] s').
+    assert (Hacc : forall sa, WQ cf [i_id x] [] sa -> NoEntry sa (i_id x) ->
+                     (modify (fun s => s <| arr := arr s <| a_accepted := a_accepted (arr s) + 1 |> |>);;; accept cf j x) sa = Ok (tt, s') -> WQ cf [] [] s').
     { intros sa HQa HNa Ha. mstep Ha.
       match goal with E : modify _ sa = Ok (_, ?sb) |- _ => apply modify_spec in E; subst sb end.
       match type of Ha with accept _ _ _ ?st = _ => eapply (accept_W cf j x [] [] st s'); [|eapply N0_same; [|exact HNa]; reflexivity|intros y []|exact Ha] end.
@@ -1910,7 +1910,7 @@ Section Who2.
   Lemma find_none_of_le (l : list ind) c : (forall x, In x l -> i_id x <= c) -> find_ind (c + 1) l = None.
   Proof. intros H. destruct (find_ind (c + 1) l) as [x|] eqn:E; [|reflexivity]. pose proof (H x (find_In _ _ _ E)). pose proof (find_ind_id _ _ _ E). lia. Qed.
 
-  Lemma batch_loop_W : forall n j c p s s', Q cf [] [] s -> batch_loop cf n j c p s = Ok (tt, s') -> Q cf [] [] s'.
+  Lemma batch_loop_W : forall n j c p s s', WQ cf [] [] s -> batch_loop cf n j c p s = Ok (tt, s') -> WQ cf [] [] s'.
   Proof.
     induction n as [|n IH]; intros j c p s s' HQ H; cbn [batch_loop] in H; [apply ret_spec in H as [-> _]; exact HQ|].
     mstep H.
@@ -1925,7 +1925,7 @@ Section Who2.
     - reflexivity.
   Qed.
 
-  Lemma arrival_have_event_W s s' : Q cf [] [] s -> arrival_have_event cf s = Ok (tt, s') -> Q cf [] [] s'.
+  Lemma arrival_have_event_W s s' : WQ cf [] [] s -> arrival_have_event cf s = Ok (tt, s') -> WQ cf [] [] s'.
   Proof.
     intros HQ H. unfold arrival_have_event in H.
     mstep H.
@@ -1942,16 +1942,16 @@ Section Who2.
     mstep H. mstep H. mstep H.
     mstep H.
     match goal with E : modify _ ?sa = Ok (_, ?sb) |- _ =>
-      assert (HQ4 : Q cf [] [] sb) by (apply modify_spec in E; rewrite E; eapply Q_same; [| | | | |exact HQ3]; reflexivity); clear E HQ3 end.
+      assert (HQ4 : WQ cf [] [] sb) by (apply modify_spec in E; rewrite E; eapply Q_same; [| | | | |exact HQ3]; reflexivity); clear E HQ3 end.
     exact (Q_quiet cf _ _ _ _ _ _ (q_find_next_event_date) HQ4 H).
   Qed.
 
-  (* ---------- update_next_event_date re-establishes N1, node by node ---------- *)
-  Definition N1j (s : sim) (j : Z) : Prop :=
+  (* ---------- update_next_event_date re-establishes NextOk, node by node ---------- *)
+  Definition NextOkAt (s : sim) (j : Z) : Prop :=
     forall nd i, nodeZ s j = Some nd -> In i (n_next_inds nd) -> In i (all_individuals nd) /\ exists x, find_ind i (inds s) = Some x /\ i_blocked x = false.
 
-  Lemma update_next_event_date_W j fl ex s s' : Q cf fl ex s -> update_next_event_date cf j s = Ok (tt, s') ->
-    Q cf fl ex s' /\ inds s' = inds s /\ N1j s' j /\ (forall j', j' <> j -> nodeZ s' j' = nodeZ s j').
+  Lemma update_next_event_date_W j fl ex s s' : WQ cf fl ex s -> update_next_event_date cf j s = Ok (tt, s') ->
+    WQ cf fl ex s' /\ inds s' = inds s /\ NextOkAt s' j /\ (forall j', j' <> j -> nodeZ s' j' = nodeZ s j').
   Proof.
     intros HQ H. unfold update_next_event_date in H.
     mstep H.
@@ -1967,14 +1967,14 @@ Section Who2.
       change (In i (all_individuals nd) /\ exists x, find_ind i (inds s) = Some x /\ i_blocked x = false).
       assert (Hl : l = snd (if infb cf j then scan_inds (now s) (all_individuals nd) (inds s) None [] else scan_servers (n_servers nd) None [])) by (rewrite Epr; reflexivity).
       rewrite Hl in Hi. destruct (infb cf j).
-      + apply scan_inds_spec in Hi as [[]|Hi]. exact Hi.
-      + apply scan_servers_spec in Hi as [[]|(sv & e & Hsv & Hc & He)].
+      + apply bk_scan_inds_spec in Hi as [[]|Hi]. exact Hi.
+      + apply bk_scan_servers_spec in Hi as [[]|(sv & e & Hsv & Hc & He)].
         destruct (w_live _ _ _ (proj2 HQ) j nd sv e i Hn Hsv He Hc) as (Hin & x & Hx & Hb & _). eauto.
     - intros j' Hne. rewrite Hput. destruct (Z.eqb_spec j' j); [contradiction|reflexivity].
   Qed.
 
-  Lemma update_all_W : forall js fl ex s s', Q cf fl ex s -> update_all cf js s = Ok (tt, s') ->
-    Q cf fl ex s' /\ inds s' = inds s /\ (forall j, In j js -> N1j s' j) /\ (forall j, ~ In j js -> nodeZ s' j = nodeZ s j).
+  Lemma update_all_W : forall js fl ex s s', WQ cf fl ex s -> update_all cf js s = Ok (tt, s') ->
+    WQ cf fl ex s' /\ inds s' = inds s /\ (forall j, In j js -> NextOkAt s' j) /\ (forall j, ~ In j js -> nodeZ s' j = nodeZ s j).
   Proof.
     induction js as [|j0 r IH]; intros fl ex s s' HQ H; cbn [update_all] in H.
     - apply ret_spec in H as [-> _]. split; [exact HQ|]. split; [reflexivity|]. split; [intros j []|reflexivity].
@@ -1990,9 +1990,9 @@ Section Who2.
   Qed.
 
   (* ---------- one event ---------- *)
-  Definition Who (s : sim) : Prop := Q cf [] [] s /\ N1 s.
+  Definition Who (s : sim) : Prop := WQ cf [] [] s /\ NextOk s.
 
-  Lemma N1_same s s' : nodes s' = nodes s -> inds s' = inds s -> N1 s -> N1 s'.
+  Lemma N1_same s s' : nodes s' = nodes s -> inds s' = inds s -> NextOk s -> NextOk s'.
   Proof. intros En Ei H j nd i Hn Hi. rewrite (nodeZ_eq _ _ En) in Hn. rewrite Ei. apply (H j nd i Hn Hi). Qed.
 
   Theorem event_step_who s s' : Who s -> event_step cf s = Ok (tt, s') -> Who s'.
@@ -2001,20 +2001,20 @@ Section Who2.
     mstep H.
     match goal with E : modify _ s = Ok (_, ?sa) |- _ => apply modify_spec in E; subst sa end.
     match type of H with _ ?st = _ =>
-      assert (HQ0 : Q cf [] [] st) by (eapply Q_same; [| | | | |exact HQ]; reflexivity);
-      assert (HN0 : N1 st) by (eapply N1_same; [| |exact HN1]; reflexivity) end.
+      assert (HQ0 : WQ cf [] [] st) by (eapply Q_same; [| | | | |exact HQ]; reflexivity);
+      assert (HN0 : NextOk st) by (eapply N1_same; [| |exact HN1]; reflexivity) end.
     clear HQ HN1.
     mstep H.
     mstep H.
     match goal with E : (if ?b then _ else _) _ = Ok (?u, ?sx) |- _ =>
-      destruct u; assert (HQ1 : Q cf [] [] sx) by (destruct b; [eapply arrival_have_event_W; eauto|eapply finish_service_W; eauto]);
+      destruct u; assert (HQ1 : WQ cf [] [] sx) by (destruct b; [eapply arrival_have_event_W; eauto|eapply finish_service_W; eauto]);
       rename sx into sB; clear E HQ0 HN0 end.
     mstep H.
     mstep H.
     match goal with E : update_all cf _ sB = Ok (?u, ?sx) |- _ =>
       destruct u; destruct (update_all_W _ _ _ _ _ HQ1 E) as (HQ2 & Ei2 & Hin & _);
-      pose proof (k_update_all cf _ _ _ _ (WFx_Idx _ _ (proj1 HQ1)) E) as EBV; rename sx into sC; clear E end.
-    assert (HN2 : N1 sC).
+      pose proof (bk_k_update_all cf _ _ _ _ (WFx_Idx _ _ (proj1 HQ1)) E) as EBV; rename sx into sC; clear E end.
+    assert (HN2 : NextOk sC).
     { intros j nd i Hn Hi. apply (Hin j); [|exact Hn|exact Hi].
       pose proof (bvZ_BV sB sC j EBV) as Eb. unfold bvZ in Eb. fold (nodeZ sC j) in Eb. fold (nodeZ sB j) in Eb. rewrite Hn in Eb.
       destruct (nodeZ sB j) as [nd0|] eqn:En0; [|discriminate Eb].
@@ -2079,8 +2079,8 @@ Proof.
 Qed.
 
 (* ---------- an executable test of Who ---------- *)
-Fixpoint nodup_b (l : list Z) : bool := match l with [] => true | x :: r => negb (memZ x r) && nodup_b r end.
-Lemma nodup_b_sound l : nodup_b l = true -> NoDup l.
+Fixpoint bk_nodup_b (l : list Z) : bool := match l with [] => true | x :: r => negb (memZ x r) && bk_nodup_b r end.
+Lemma bk_nodup_b_sound l : bk_nodup_b l = true -> NoDup l.
 Proof.
   induction l as [|x r IH]; cbn; intros H; [constructor|]. apply andb_true_iff in H as [H1 H2]. constructor; [|auto].
   rewrite <- memZ_In. apply negb_true_iff in H1. congruence.
@@ -2109,12 +2109,12 @@ Definition next_b (s : sim) (nd : node) (i : Z) : bool :=
 
 Definition who_b (cf : config) (s : sim) : bool :=
   wfx_b s
-  && nodup_b (map i_id (inds s))
+  && bk_nodup_b (map i_id (inds s))
   && forallb (fun x => i_id x <=? a_created (arr s)) (inds s)
-  && forallb (fun nd => nodup_b (map snd (n_bq nd))) (nodes s)
+  && forallb (fun nd => bk_nodup_b (map snd (n_bq nd))) (nodes s)
   && forallb (fun nd => forallb (ent_b cf s nd) (n_bq nd)) (nodes s)
   && forallb (fun x => negb (i_blocked x) || existsb (fun nd => memZ (i_id x) (map snd (n_bq nd))) (nodes s)) (inds s)
-  && forallb (fun nd => nodup_b (map sv_id (n_servers nd))) (nodes s)
+  && forallb (fun nd => bk_nodup_b (map sv_id (n_servers nd))) (nodes s)
   && forallb (fun nd => forallb (live_b s nd) (n_servers nd)) (nodes s)
   && forallb (fun nd => negb (infb cf (n_id nd)) || match n_servers nd with [] => true | _ => false end) (nodes s)
   && forallb (fun nd => forallb (next_b s nd) (n_next_inds nd)) (nodes s).
@@ -2129,9 +2129,9 @@ Proof.
   pose proof (wfx_b_sound s H) as HW. pose proof (WFx_Idx _ _ HW) as HI.
   rewrite forallb_forall in B, B0, B1, B2, B3, B4, B5, B6.
   split; [split; [exact HW|constructor]|].
-  - apply nodup_b_sound. exact B7.
+  - apply bk_nodup_b_sound. exact B7.
   - intros x Hx. apply Z.leb_le. apply (B6 x Hx).
-  - intros j nd Hn. apply nodup_b_sound. apply (B5 nd (nodeZ_In _ _ _ Hn)).
+  - intros j nd Hn. apply bk_nodup_b_sound. apply (B5 nd (nodeZ_In _ _ _ Hn)).
   - intros d from y (nd & Hn & Hin). pose proof (B4 nd (nodeZ_In _ _ _ Hn)) as E. rewrite forallb_forall in E. specialize (E _ Hin).
     unfold ent_b in E. destruct (find_ind y (inds s)) as [x|]; [|discriminate]. exists x.
     apply andb_true_iff in E as [E E4]. apply andb_true_iff in E as [E E3]. apply andb_true_iff in E as [E1 E2].
@@ -2143,7 +2143,7 @@ Proof.
   - intros x Hx Hb. right. specialize (B3 x Hx). rewrite Hb in B3. cbn in B3. apply existsb_exists in B3 as (nd & Hnd & Hm).
     apply memZ_In in Hm. apply in_map_iff in Hm as ([from y] & Ey & Hin). cbn in Ey. subst y.
     apply In_nth_error in Hnd as (k & Hk). exists (Z.of_nat k + 1), from, nd. rewrite nodeZ_of_nat. auto.
-  - intros j nd Hn. apply nodup_b_sound. apply (B2 nd (nodeZ_In _ _ _ Hn)).
+  - intros j nd Hn. apply bk_nodup_b_sound. apply (B2 nd (nodeZ_In _ _ _ Hn)).
   - intros j nd sv e c Hn Hsv He Hc. pose proof (B1 nd (nodeZ_In _ _ _ Hn)) as E. rewrite forallb_forall in E. specialize (E _ Hsv).
     unfold live_b in E. rewrite He, Hc in E. apply andb_true_iff in E as [E1 E2]. split; [apply memZ_In; exact E1|].
     destruct (find_ind c (inds s)) as [x|]; [|discriminate]. exists x. apply andb_true_iff in E2 as [E2 E3].
@@ -2175,38 +2175,38 @@ Proof.
 Qed.
 
 (* ---------- non-vacuity: a concrete two-node tandem, node 2 with room for one customer ---------- *)
-Definition ex_cf : config :=
+Definition c07ex_cf : config :=
   mkCfg 1 [mkNcfg (Some 1) None None 0; mkNcfg (Some 1) (Some 1) None 0] [0] 1 None [[[0; 8]; [0; 0]]] [[None; None]].
-Definition ex_i1 : ind := mkInd 1 0 0 0 0 0 (Some 1) (Some 0) (Some 0) (Some 3) (Some 3) None false (Some 1) None (Some 0) None 0.
-Definition ex_i2 : ind := mkInd 2 0 0 0 0 0 (Some 2) (Some 1) (Some 1) (Some 5) (Some 6) None false (Some 1) None (Some 0) None 0.
-Definition ex_n1 : node := mkNode 1 1 1 [[1]] [mkServer 1 (Some 1) true (Some 3) 0 None 0] [] 0 (Some 3) [1].
-Definition ex_n2 : node := mkNode 2 1 1 [[2]] [mkServer 1 (Some 2) true (Some 6) 0 None 0] [] 0 (Some 6) [2].
+Definition c07ex_i1 : ind := mkInd 1 0 0 0 0 0 (Some 1) (Some 0) (Some 0) (Some 3) (Some 3) None false (Some 1) None (Some 0) None 0.
+Definition c07ex_i2 : ind := mkInd 2 0 0 0 0 0 (Some 2) (Some 1) (Some 1) (Some 5) (Some 6) None false (Some 1) None (Some 0) None 0.
+Definition c07ex_n1 : node := mkNode 1 1 1 [[1]] [mkServer 1 (Some 1) true (Some 3) 0 None 0] [] 0 (Some 3) [1].
+Definition c07ex_n2 : node := mkNode 2 1 1 [[2]] [mkServer 1 (Some 2) true (Some 6) 0 None 0] [] 0 (Some 6) [2].
 (* time 3: customer 1 is about to finish at node 1 and will want node 2, which customer 2 fills until time 6 *)
-Definition ex_s0 : sim :=
-  mkSim 3 1 (mkArr 2 2 [[Some 4]; [None]] 1 0 (Some 4)) [ex_n1; ex_n2] [] 0 0 [ex_i1; ex_i2] (mkDraws [] [] [] []) [].
-Definition ex_d : draws := mkDraws [5] [1] [4; 2; 7] [4503599627370496; 0; 0].
+Definition c07ex_s0 : sim :=
+  mkSim 3 1 (mkArr 2 2 [[Some 4]; [None]] 1 0 (Some 4)) [c07ex_n1; c07ex_n2] [] 0 0 [c07ex_i1; c07ex_i2] (mkDraws [] [] [] []) [].
+Definition c07ex_d : draws := mkDraws [5] [1] [4; 2; 7] [4503599627370496; 0; 0].
 
-Example ex_hyps : blk_b ex_cf ex_s0 = true /\ who_b ex_cf ex_s0 = true /\ cap_b ex_cf ex_s0 = true.
+Example c07ex_hyps : blk_b c07ex_cf c07ex_s0 = true /\ who_b c07ex_cf c07ex_s0 = true /\ cap_b c07ex_cf c07ex_s0 = true.
 Proof. vm_compute. auto. Qed.
-Example ex_Blk : Blk ex_cf ex_s0.
+Example c07ex_Blk : Blk c07ex_cf c07ex_s0.
 Proof. apply blk_b_sound. vm_compute. reflexivity. Qed.
-Example ex_Who : Who ex_cf ex_s0.
+Example c07ex_Who : Who c07ex_cf c07ex_s0.
 Proof. apply who_b_sound. vm_compute. reflexivity. Qed.
 (* event 1: node 2 is full, customer 1 joins its blocked queue and stays at node 1, flagged blocked *)
-Example ex_blocked : exists s1, run_many ex_cf ex_s0 [ex_d] = Ok s1 /\
+Example c07ex_blocked : exists s1, run_many c07ex_cf c07ex_s0 [c07ex_d] = Ok s1 /\
   map n_bq (nodes s1) = [[]; [(1, 1)]] /\ map all_individuals (nodes s1) = [[1]; [2]] /\
   map (fun x => (i_id x, i_blocked x, i_dest x)) (inds s1) = [(1, true, Some 2); (2, false, None)] /\
-  blk_b ex_cf s1 = true /\ who_b ex_cf s1 = true.
+  blk_b c07ex_cf s1 = true /\ who_b c07ex_cf s1 = true.
 Proof. eexists. split; [vm_compute; reflexivity|]. vm_compute. auto 6. Qed.
 (* events 2 and 3: customer 3 arrives at node 1; customer 2 leaves node 2 and, in the same event, customer 1 takes the place *)
-Example ex_unblocked : exists s3, run_many ex_cf ex_s0 [ex_d; ex_d; ex_d] = Ok s3 /\
+Example c07ex_unblocked : exists s3, run_many c07ex_cf c07ex_s0 [c07ex_d; c07ex_d; c07ex_d] = Ok s3 /\
   map n_bq (nodes s3) = [[]; []] /\ map all_individuals (nodes s3) = [[3]; [1]] /\ exit_ids s3 = [2] /\
   map (fun x => (i_id x, i_blocked x)) (inds s3) = [(1, false); (3, false)] /\
-  blk_b ex_cf s3 = true /\ who_b ex_cf s3 = true.
+  blk_b c07ex_cf s3 = true /\ who_b c07ex_cf s3 = true.
 Proof. eexists. split; [vm_compute; reflexivity|]. vm_compute. auto 7. Qed.
 (* the intermediate state, with a customer in a blocked queue, satisfies the invariants by the theorem (not by computation) *)
-Example ex_run : forall s1, run_many ex_cf ex_s0 [ex_d] = Ok s1 -> Blk ex_cf s1 /\ Who ex_cf s1 /\ fifo ex_s0 s1.
-Proof. intros s1 H. exact (engine_blocking ex_cf _ _ _ ex_Blk ex_Who H). Qed.
+Example c07ex_run : forall s1, run_many c07ex_cf c07ex_s0 [c07ex_d] = Ok s1 -> Blk c07ex_cf s1 /\ Who c07ex_cf s1 /\ fifo c07ex_s0 s1.
+Proof. intros s1 H. exact (engine_blocking c07ex_cf _ _ _ c07ex_Blk c07ex_Who H). Qed.
 
 Print Assumptions event_step_blk.
 Print Assumptions event_step_fifo.
@@ -2221,6 +2221,6 @@ Print Assumptions run_many_who.
 Print Assumptions who_means.
 Print Assumptions who_b_sound.
 Print Assumptions engine_blocking.
-Print Assumptions ex_blocked.
-Print Assumptions ex_unblocked.
-Print Assumptions ex_run.
+Print Assumptions c07ex_blocked.
+Print Assumptions c07ex_unblocked.
+Print Assumptions c07ex_run.
